@@ -804,6 +804,41 @@ Proof.
   - apply (proj2 (brk_target_app _ _ _ _ E3)).
 Qed.
 
+(* the same when the second piece of code is cut short (compile_block_value removes a trailing Pop) *)
+Lemma env_left' : forall prog st st1 st2 outer cur1 cur2 ce1 ce2 X nb1 nb2 lexit,
+  cfacts st st1 outer cur1 ce1 nb1 -> cfacts st1 st2 outer cur2 ce2 nb2 ->
+  env_ok prog st st2 (ce1 ++ X) (nb1 ++ nb2) lexit -> env_ok prog st st1 ce1 nb1 lexit.
+Proof.
+  intros prog st st1 st2 outer cur1 cur2 ce1 ce2 X nb1 nb2 lexit F1 F2 [E1 E2 E3]. constructor.
+  - apply code_x_app in E1. destruct E1 as [E1 _].
+    apply (code_x_restrict prog _ ce1 _ _ E1). intros p Hp Hin.
+    rewrite brk_holes_app in Hin. apply in_app_or in Hin. destruct Hin as [Hin|Hin]; [exact Hin|].
+    pose proof (brk_holes_range _ _ _ _ (cf_brk _ _ _ _ _ _ F2) Hin) as R.
+    rewrite (cfacts_len _ _ _ _ _ _ F1) in R. lia.
+  - apply (consts_ok_ext prog _ _ (cf_consts _ _ _ _ _ _ F2)). exact E2.
+  - apply (proj1 (brk_target_app _ _ _ _ E3)).
+Qed.
+
+Lemma env_right' : forall prog st st1 st2 outer cur1 cur2 ce1 ce2 X nb1 nb2 lexit,
+  cfacts st st1 outer cur1 ce1 nb1 -> cfacts st1 st2 outer cur2 ce2 nb2 ->
+  env_ok prog st st2 (ce1 ++ X) (nb1 ++ nb2) lexit -> env_ok prog st1 st2 X nb2 lexit.
+Proof.
+  intros prog st st1 st2 outer cur1 cur2 ce1 ce2 X nb1 nb2 lexit F1 F2 [E1 E2 E3]. constructor.
+  - apply code_x_app in E1. destruct E1 as [_ E1]. rewrite <- (cfacts_len _ _ _ _ _ _ F1) in E1.
+    apply (code_x_restrict prog _ X _ _ E1). intros p Hp Hin.
+    rewrite brk_holes_app in Hin. apply in_app_or in Hin. destruct Hin as [Hin|Hin]; [|exact Hin].
+    pose proof (brk_holes_range _ _ _ _ (cf_brk _ _ _ _ _ _ F1) Hin) as R. lia.
+  - exact E2.
+  - apply (proj2 (brk_target_app _ _ _ _ E3)).
+Qed.
+
+(* the code that is followed by the canonical simulation of a statement list *)
+Definition canon (pop : bool) (ce : list Z) : list Z := if pop then removelast ce else ce.
+
+Lemma removelast_app_ne : forall A (a b : list A), b <> [] -> removelast (a ++ b) = a ++ removelast b.
+Proof. intros A a b H. apply removelast_app. exact H. Qed.
+
+
 (** * Simulation statements *)
 
 Section Sim.
@@ -843,18 +878,22 @@ Section Sim.
       sim2 prog s (code_len st') (cur_start (c_loops st)) lexit
            (xeval orc fuel (flat outer cur) e (mst_of s)).
 
+  Definition lconcl (l : list stmt) (st st' : cstate) (outer : list (list text)) (cur : list text)
+             (ce : list Z) (nb : list Z) : Prop :=
+    cfacts st st' outer (cur ++ decl_names l) ce nb /\
+    (l <> [] -> last_instruction_is OPop st' = ends_pop l) /\
+    (ends_pop l = true -> (exists ce', ce = ce' ++ [byte_of_opcode OPop]) /\
+                          brk_ok (code_len st) nb (code_len st' - 1)) /\
+    forall prog lexit, env_ok prog st st' (canon (ends_pop l) ce) nb lexit -> 0 <= lexit < 65536 ->
+    0 <= cur_start (c_loops st) ->
+    forall fuel s last, v_ip s = code_len st ->
+    sim_l prog s (ends_pop l) (code_len st') (cur_start (c_loops st)) lexit
+          (xstmts orc fuel (flat outer cur) l last (mst_of s)).
+
   Definition lsim (l : list stmt) : Prop :=
     forall lp st st' k outer cur, f2b lp l = true -> c_symbols st = stab k outer cur ->
     compile_statements l st = Ok st' ->
-    exists ce nb, cfacts st st' outer (cur ++ decl_names l) ce nb /\
-      (l <> [] -> last_instruction_is OPop st' = ends_pop l) /\
-      (ends_pop l = true -> (exists ce', ce = ce' ++ [byte_of_opcode OPop]) /\
-                            brk_ok (code_len st) nb (code_len st' - 1)) /\
-      forall prog lexit, env_ok prog st st' ce nb lexit -> 0 <= lexit < 65536 ->
-      0 <= cur_start (c_loops st) ->
-      forall fuel s last, v_ip s = code_len st ->
-      sim_l prog s (ends_pop l) (code_len st') (cur_start (c_loops st)) lexit
-            (xstmts orc fuel (flat outer cur) l last (mst_of s)).
+    exists ce nb, lconcl l st st' outer cur ce nb.
 
   (* the step property of one statement in front of a list *)
   Definition ssim (s0 : stmt) : Prop := forall r, lsim r -> lsim (s0 :: r).
@@ -931,4 +970,1541 @@ Section Sim.
     rewrite (step_get_global orc prog s _ [] Hat Hr). rewrite Nat2Z.id, setm_setx.
     f_equal. f_equal. apply setx_eq; [reflexivity|]. rewrite (code_len_app _ _ _ Hcode), zlength3, Hip. reflexivity.
   Qed.
+
+  (** ** Assignment, prefix and infix operators *)
+
+  Ltac nosig_contra f e names m HF E :=
+    let N := fresh "N" in
+    pose proof (proj1 (xeval_nosig orc f) e names m HF) as N; rewrite E in N; destruct N.
+
+  Lemma cfacts_emit_sym : forall op sy st st' outer cur k, c_symbols st = stab k outer cur ->
+    emit_sym op sy st = Ok st' ->
+    0 <= Z.of_nat (s_index sy) < 65536 /\
+    cfacts st st' outer cur [byte_of_opcode op; Z.of_nat (s_index sy) mod 256; (Z.of_nat (s_index sy) / 256) mod 256] [].
+  Proof.
+    intros op sy st st' outer cur k Hs H. pose proof (emit_sym_loops _ _ _ _ H) as Hl.
+    destruct (emit_sym_spec _ _ _ _ H) as [Hsy [Hk [Hr Hcode]]]. split; [exact Hr|].
+    apply (cfacts_emit _ _ outer cur k); auto.
+  Qed.
+
+  Lemma cfacts_emit_opcode : forall op st outer cur k, c_symbols st = stab k outer cur ->
+    cfacts st (emit_opcode op st) outer cur [byte_of_opcode op] [].
+  Proof. intros. apply (cfacts_emit _ _ outer cur k); auto. Qed.
+
+  Lemma esim_assign : forall x r, esim r -> esim (EAssign (EIdent x) r).
+  Proof.
+    intros x r IHr lp st st' k outer cur HF Hs Hc. rewrite f2e_assign in HF.
+    rewrite ce_assign_ident, Hs, resolve_stab in Hc.
+    destruct (rposition x (flat outer cur)) as [i|] eqn:Er; cbn [option_map] in Hc; [|discriminate Hc].
+    apply bind_ok in Hc. destruct Hc as [st1 [H1 Hc]]. apply bind_ok in Hc. destruct Hc as [st2 [H2 H3]].
+    unfold scoped in H2, H3. cbn [s_scope] in H2, H3.
+    destruct (IHr false st st1 k outer cur HF Hs H1) as [ce1 [nb1 [CF1 Hsim1]]].
+    destruct (cf_syms _ _ _ _ _ _ CF1) as [k1 Hs1].
+    destruct (cfacts_emit_sym _ _ _ _ outer cur k1 Hs1 H2) as [Hr CF2]. cbn [s_index] in Hr, CF2.
+    destruct (cf_syms _ _ _ _ _ _ CF2) as [k2 Hs2].
+    destruct (cfacts_emit_sym _ _ _ _ outer cur k2 Hs2 H3) as [_ CF3]. cbn [s_index] in CF3.
+    pose proof (cfacts_trans _ _ _ _ _ _ _ _ _ _ CF2 CF3) as CF23.
+    pose proof (cfacts_trans _ _ _ _ _ _ _ _ _ _ CF1 CF23) as CF.
+    eexists; eexists. split; [exact CF|].
+    intros prog lexit E Hle Hst fuel s Hip. destruct fuel as [|f]; [exact I|].
+    rewrite xe_assign, Er.
+    pose proof (env_left _ _ _ _ _ _ _ _ _ _ _ _ CF1 CF23 E) as EL.
+    pose proof (env_right _ _ _ _ _ _ _ _ _ _ _ _ CF1 CF23 E) as ER.
+    specialize (Hsim1 prog lexit EL Hle Hst f s Hip).
+    destruct (xeval orc f (flat outer cur) r (mst_of s)) as [a m1|m1|m1|e|y|] eqn:E1; cbn [xbind];
+      try exact Hsim1; try (nosig_contra f r (flat outer cur) (mst_of s) HF E1).
+    cbn [sim2] in *. destruct Hsim1 as [fin1 Hsim1].
+    set (sa := setx s (a :: v_stack s) (v_slen s + 1) (code_len st1) m1 fin1) in *.
+    exists fin1. apply (reaches_trans orc prog s sa _ Hsim1).
+    destruct ER as [ERc _ _]. cbn [app brk_holes flat_map] in ERc.
+    pose proof (cfacts_len _ _ _ _ _ _ CF2) as L2. pose proof (cfacts_len _ _ _ _ _ _ CF3) as L3.
+    rewrite zlength3 in L2, L3.
+    set (idx := Z.of_nat i) in *.
+    pose proof (code_x_at3 _ _ _ _ _ _ _ ERc (holes_free_nil _ _)) as Hat1.
+    pose proof (step_set_global orc prog sa idx a (v_stack s) [] Hat1 Hr eq_refl) as Hstep1.
+    apply (reaches_trans orc prog sa _ _ (reaches_step orc prog _ _ Hstep1)).
+    set (sb := setm sa (v_stack s) (v_slen sa - 1) (v_ip sa + 3) (set_global_m (Z.to_nat idx) a (mst_of sa))) in *.
+    change ([byte_of_opcode OSetGlobal; idx mod 256; (idx / 256) mod 256; byte_of_opcode OGetGlobal;
+             idx mod 256; (idx / 256) mod 256])
+      with ([byte_of_opcode OSetGlobal; idx mod 256; (idx / 256) mod 256] ++
+            [byte_of_opcode OGetGlobal; idx mod 256; (idx / 256) mod 256]) in ERc.
+    apply code_x_app in ERc. destruct ERc as [_ ERc]. rewrite zlength3 in ERc.
+    pose proof (code_x_at3 _ _ _ _ _ _ _ ERc (holes_free_nil _ _)) as Hat2.
+    assert (v_ip sb = code_len st1 + 3) as Hipb by reflexivity. rewrite <- Hipb in Hat2.
+    pose proof (step_get_global orc prog sb idx [] Hat2 Hr) as Hstep2.
+    apply reaches_step. rewrite Hstep2. f_equal. f_equal.
+    subst sb sa idx. unfold setm, setx, mst_of, set_global_m. vmcbn2. rewrite Nat2Z.id, nth_set_global_same.
+    f_equal; lia.
+  Qed.
+
+
+  Lemma const_var_infix_global2 : forall name v op st st1 done k outer cur,
+    c_symbols st = stab k outer cur ->
+    compile_const_var_infix name v op st = (st1, done) ->
+    done = false /\ cfacts st st1 outer cur [] [].
+  Proof.
+    intros name v op st st1 done k outer cur Hs H.
+    assert (gtab (c_symbols st)) as Hg by (rewrite Hs; apply gtab_stab).
+    destruct (const_var_infix_global _ _ _ _ _ _ Hg H) as [-> [Hs1 [Hc1 [kx [Hk Hf]]]]].
+    split; [reflexivity|].
+    assert (c_loops st1 = c_loops st) as Hl.
+    { unfold compile_const_var_infix in H. destruct (add_constant (KInt v) st) as [st0 r] eqn:E.
+      pose proof (add_constant_loops _ _ _ _ E) as L0.
+      destruct r as [idx| | |]; try (inversion H; subst; exact L0).
+      destruct (resolve (c_symbols st0) name) as [sy|]; [|inversion H; subst; exact L0].
+      destruct (s_scope sy); [|inversion H; subst; exact L0].
+      destruct (assoc operator_eqb op fused_table); [|inversion H; subst; exact L0].
+      destruct (operand 16 (Z.of_nat (s_index sy))); inversion H; subst; exact L0. }
+    constructor.
+    - exists k. congruence.
+    - rewrite app_nil_r. exact Hc1.
+    - exists kx. auto.
+    - rewrite add_breaks_nil. exact Hl.
+    - reflexivity.
+    - cbn [brk_ok]. unfold code_len. rewrite Hc1. lia.
+  Qed.
+
+  Lemma esim_prefix : forall op r, esim r -> esim (EPrefix op r).
+  Proof.
+    intros op r IHr lp st st' k outer cur HF Hs Hc. rewrite f2e_prefix in HF.
+    apply andb_prop in HF. destruct HF as [Hop HF].
+    rewrite ce_prefix in Hc. apply bind_ok in Hc. destruct Hc as [st1 [H1 Hc]].
+    destruct (IHr false st st1 k outer cur HF Hs H1) as [ce1 [nb1 [CF1 Hsim1]]].
+    destruct (cf_syms _ _ _ _ _ _ CF1) as [k1 Hs1].
+    assert (exists opc, st' = emit_opcode opc st1 /\
+              ((opc = ONot /\ op = OpNot) \/ (opc = ONegate /\ (op = OpSubtract \/ op = OpNegate)))) as [opc [-> Hopc]].
+    { destruct op; try discriminate Hop; inversion Hc; eexists; split; try reflexivity; tauto. }
+    clear Hc. pose proof (cfacts_emit_opcode opc st1 outer cur k1 Hs1) as CF2.
+    pose proof (cfacts_trans _ _ _ _ _ _ _ _ _ _ CF1 CF2) as CF.
+    eexists; eexists. split; [exact CF|].
+    intros prog lexit E Hle Hst fuel s Hip. destruct fuel as [|f]; [exact I|].
+    rewrite xe_prefix.
+    pose proof (env_left _ _ _ _ _ _ _ _ _ _ _ _ CF1 CF2 E) as EL.
+    pose proof (env_right _ _ _ _ _ _ _ _ _ _ _ _ CF1 CF2 E) as ER.
+    specialize (Hsim1 prog lexit EL Hle Hst f s Hip).
+    destruct (xeval orc f (flat outer cur) r (mst_of s)) as [a m1|m1|m1|e|y|] eqn:E1; cbn [xbind];
+      try exact Hsim1; try (nosig_contra f r (flat outer cur) (mst_of s) HF E1).
+    cbn [sim2] in Hsim1. destruct Hsim1 as [fin1 Hsim1].
+    set (sa := setx s (a :: v_stack s) (v_slen s + 1) (code_len st1) m1 fin1) in *.
+    destruct ER as [ERc _ _]. cbn [brk_holes flat_map] in ERc.
+    pose proof (code_x_at1 _ _ _ _ _ ERc (fun x => x)) as Hat.
+    pose proof (code_len_emit_opcode opc st1) as L3.
+    destruct Hopc as [[-> ->]|[-> Hop2]].
+    - pose proof (step_not orc prog sa a (v_stack s) [] Hat eq_refl) as Hstep.
+      destruct (lognot a) as [x| | |]; cbn [xlift_p sim2].
+      + exists fin1. apply (reaches_trans orc prog s sa _ Hsim1). apply reaches_step. rewrite Hstep.
+        f_equal. f_equal. subst sa. unfold setm, setx, mst_of. vmcbn2. rewrite L3. f_equal; lia.
+      + apply (reaches_stops orc prog s sa _ _ Hsim1). apply (stops_now orc prog sa _ Hstep).
+      + apply (reaches_stops orc prog s sa _ _ Hsim1). apply (stops_now orc prog sa _ Hstep).
+      + exact I.
+    - pose proof (step_negate orc prog sa a (v_stack s) [] Hat eq_refl) as Hstep.
+      change (v_heap sa) with (m_heap m1) in Hstep.
+      assert (match op with
+              | OpNegate | OpSubtract => xlift_h m1 (negate (m_heap m1) a)
+              | OpNot => xlift_p m1 (lognot a)
+              | _ => XErr ETypeError
+              end = xlift_h m1 (negate (m_heap m1) a)) as ->.
+      { destruct Hop2 as [-> | ->]; reflexivity. }
+      destruct (negate (m_heap m1) a) as [x| | |]; cbn [xlift_h sim2].
+      + exists fin1. apply (reaches_trans orc prog s sa _ Hsim1). apply reaches_step. rewrite Hstep.
+        f_equal. f_equal. subst sa. unfold setm, setx, mst_of. vmcbn2. rewrite ?mst_eta, L3. f_equal; lia.
+      + apply (reaches_stops orc prog s sa _ _ Hsim1). apply (stops_now orc prog sa _ Hstep).
+      + apply (reaches_stops orc prog s sa _ _ Hsim1). apply (stops_now orc prog sa _ Hstep).
+      + exact I.
+  Qed.
+
+  Lemma generic_infix_sim2 : forall l op r, esim l -> esim r -> is_binop op = true ->
+    f2e false l = true -> f2e false r = true ->
+    forall st st' k outer cur, c_symbols st = stab k outer cur ->
+    generic_infix l op r st = Ok st' ->
+    exists ce nb, cfacts st st' outer cur ce nb /\
+      forall prog lexit, env_ok prog st st' ce nb lexit -> 0 <= lexit < 65536 ->
+      0 <= cur_start (c_loops st) ->
+      forall fuel s, v_ip s = code_len st ->
+      sim2 prog s (code_len st') (cur_start (c_loops st)) lexit
+           (xeval orc fuel (flat outer cur) (EInfix l op r) (mst_of s)).
+  Proof.
+    intros l op r IHl IHr Hop Hl Hr st st' k outer cur Hs Hc. unfold generic_infix in Hc.
+    apply bind_ok in Hc. destruct Hc as [st1 [H1 Hc]]. apply bind_ok in Hc. destruct Hc as [st2 [H2 Hc]].
+    destruct (assoc operator_eqb op compile_operator_table) as [opc|] eqn:Eopc; [|discriminate Hc].
+    inversion Hc; subst st'; clear Hc.
+    destruct (binop_chain op opc Hop Eopc) as [mth [Hmth Hmeth]].
+    destruct (IHl false st st1 k outer cur Hl Hs H1) as [ce1 [nb1 [CF1 Hsim1]]].
+    destruct (cf_syms _ _ _ _ _ _ CF1) as [k1 Hs1].
+    destruct (IHr false st1 st2 k1 outer cur Hr Hs1 H2) as [ce2 [nb2 [CF2 Hsim2]]].
+    destruct (cf_syms _ _ _ _ _ _ CF2) as [k2 Hs2].
+    pose proof (cfacts_emit_opcode opc st2 outer cur k2 Hs2) as CF3.
+    pose proof (cfacts_trans _ _ _ _ _ _ _ _ _ _ CF2 CF3) as CF23.
+    pose proof (cfacts_trans _ _ _ _ _ _ _ _ _ _ CF1 CF23) as CF.
+    eexists; eexists. split; [exact CF|].
+    intros prog lexit E Hle Hst fuel s Hip. destruct fuel as [|f]; [exact I|].
+    rewrite xe_infix, Hmeth.
+    pose proof (env_left _ _ _ _ _ _ _ _ _ _ _ _ CF1 CF23 E) as EL.
+    pose proof (env_right _ _ _ _ _ _ _ _ _ _ _ _ CF1 CF23 E) as ER.
+    pose proof (env_left _ _ _ _ _ _ _ _ _ _ _ _ CF2 CF3 ER) as ERL.
+    pose proof (env_right _ _ _ _ _ _ _ _ _ _ _ _ CF2 CF3 ER) as ERR.
+    specialize (Hsim1 prog lexit EL Hle Hst f s Hip).
+    destruct (xeval orc f (flat outer cur) l (mst_of s)) as [a m1|m1|m1|e|y|] eqn:E1; cbn [xbind];
+      try exact Hsim1; try (nosig_contra f l (flat outer cur) (mst_of s) Hl E1).
+    cbn [sim2] in Hsim1. destruct Hsim1 as [fin1 Hsim1].
+    set (sa := setx s (a :: v_stack s) (v_slen s + 1) (code_len st1) m1 fin1) in *.
+    assert (0 <= cur_start (c_loops st1)) as Hst1.
+    { rewrite (cf_loops _ _ _ _ _ _ CF1), cur_start_add. exact Hst. }
+    specialize (Hsim2 prog lexit ERL Hle Hst1 f sa eq_refl).
+    rewrite (cf_loops _ _ _ _ _ _ CF1), cur_start_add in Hsim2.
+    unfold sa in Hsim2 at 2. rewrite mst_of_setx in Hsim2.
+    destruct (xeval orc f (flat outer cur) r m1) as [b m2|m2|m2|e|y|] eqn:E2; cbn [xbind];
+      try (nosig_contra f r (flat outer cur) m1 Hr E2);
+      try (cbn [sim2] in *; apply (reaches_stops orc prog s sa _ _ Hsim1); exact Hsim2); try exact I.
+    cbn [sim2] in Hsim2. destruct Hsim2 as [fin2 Hsim2].
+    set (sb := setx sa (b :: v_stack sa) (v_slen sa + 1) (code_len st2) m2 fin2) in *.
+    destruct ERR as [ERc _ _]. cbn [brk_holes flat_map] in ERc.
+    pose proof (code_x_at1 _ _ _ _ _ ERc (fun x => x)) as Hat.
+    pose proof (code_len_emit_opcode opc st2) as L3.
+    pose proof (step_binary orc prog sb opc mth a b (v_stack s) [] Hat Hmth eq_refl) as Hstep.
+    change (v_heap sb) with (m_heap m2) in Hstep.
+    destruct (binop orc mth (m_heap m2) a b) as [x| | |]; cbn [xlift_h sim2].
+    - exists fin2. apply (reaches_trans orc prog s sa _ Hsim1). apply (reaches_trans orc prog sa sb _ Hsim2).
+      apply reaches_step. rewrite Hstep. f_equal. f_equal. subst sb sa. unfold setm, setx, mst_of. vmcbn2.
+      rewrite ?mst_eta, L3. f_equal; lia.
+    - apply (reaches_stops orc prog s sa _ _ Hsim1). apply (reaches_stops orc prog sa sb _ _ Hsim2).
+      apply (stops_now orc prog sb _ Hstep).
+    - apply (reaches_stops orc prog s sa _ _ Hsim1). apply (reaches_stops orc prog sa sb _ _ Hsim2).
+      apply (stops_now orc prog sb _ Hstep).
+    - exact I.
+  Qed.
+
+  Lemma cfacts_pre_nil : forall st st0 st' outer cur ce nb,
+    cfacts st st0 outer cur [] [] -> cfacts st0 st' outer cur ce nb -> cfacts st st' outer cur ce nb.
+  Proof. intros st st0 st' outer cur ce nb F0 F. exact (cfacts_trans _ _ _ _ _ _ _ _ _ _ F0 F). Qed.
+
+  Lemma esim_infix : forall l op r, esim l -> esim r -> esim (EInfix l op r).
+  Proof.
+    intros l op r IHl IHr lp st st' k outer cur HF Hs Hc. rewrite f2e_infix in HF.
+    apply andb_prop in HF. destruct HF as [HF Hr]. apply andb_prop in HF. destruct HF as [Hop Hl].
+    rewrite ce_infix in Hc.
+    destruct (fused_candidate l r op) as [[[name v] op']|] eqn:Ef.
+    - destruct (compile_const_var_infix name v op' st) as [st0 done] eqn:Ec.
+      destruct (const_var_infix_global2 _ _ _ _ _ _ k outer cur Hs Ec) as [-> CF0].
+      destruct (cf_syms _ _ _ _ _ _ CF0) as [k0 Hs0].
+      destruct (generic_infix_sim2 l op r IHl IHr Hop Hl Hr st0 st' k0 outer cur Hs0 Hc) as [ce [nb [CF Hsim]]].
+      exists ce, nb. split; [exact (cfacts_pre_nil _ _ _ _ _ _ _ CF0 CF)|].
+      pose proof (cfacts_len _ _ _ _ _ _ CF0) as L0. change (zlength []) with 0 in L0. rewrite Z.add_0_r in L0.
+      pose proof (cf_loops _ _ _ _ _ _ CF0) as Ll0. rewrite add_breaks_nil in Ll0.
+      intros prog lexit [E1 E2 E3] Hle Hst fuel s Hip.
+      rewrite <- Ll0, <- L0 in *. apply Hsim; try assumption. constructor; assumption.
+    - exact (generic_infix_sim2 l op r IHl IHr Hop Hl Hr st st' k outer cur Hs Hc).
+  Qed.
+
+
+  (** ** compile_block_value *)
+
+  Lemma code_len_remove_last : forall st ce', c_code st = ce' ++ [byte_of_opcode OPop] ->
+    c_code (remove_last_instruction st) = ce' /\ code_len (remove_last_instruction st) = code_len st - 1.
+  Proof.
+    intros st ce' H. unfold remove_last_instruction, code_len. cbn [c_code]. rewrite H, removelast_last.
+    split; [reflexivity|]. rewrite zlength_app. change (zlength [byte_of_opcode OPop]) with 1. lia.
+  Qed.
+
+  Lemma bv_sim : forall b, lsim b ->
+    forall lp st st' k outer cur, f2b lp b = true -> c_symbols st = stab k outer cur ->
+    c_block_value b st = Ok st' ->
+    exists ce nb, cfacts st st' outer cur ce nb /\
+      forall prog lexit, env_ok prog st st' ce nb lexit -> 0 <= lexit < 65536 ->
+      0 <= cur_start (c_loops st) ->
+      forall fuel s, v_ip s = code_len st ->
+      sim2 prog s (code_len st') (cur_start (c_loops st)) lexit
+           (xstmts orc fuel (flat outer cur) b VNull (mst_of s)).
+  Proof.
+    intros b IHb lp st st' k outer cur HF Hs Hc. unfold c_block_value, c_block_statement in Hc.
+    destruct b as [|s0 r].
+    - (* the empty block: Null *)
+      cbn [is_nil bind] in Hc. inversion Hc; subst st'; clear Hc.
+      exists [byte_of_opcode ONull], []. split; [apply (cfacts_emit_opcode ONull st outer cur k Hs)|].
+      intros prog lexit [E1 _ _] _ _ fuel s Hip. destruct fuel as [|f]; [exact I|].
+      rewrite xs_nil. cbn [sim2]. exists (v_final s). apply reaches_step.
+      rewrite <- Hip in E1. pose proof (code_x_at1 _ _ _ _ _ E1 (fun x => x)) as Hat.
+      rewrite (step_null orc prog s [] Hat), setm_setx. f_equal. f_equal.
+      apply setx_eq; [reflexivity|]. rewrite code_len_emit_opcode, Hip. reflexivity.
+    - cbn [is_nil] in Hc. apply bind_ok in Hc. destruct Hc as [st1' [Hc1 Hc]].
+      apply bind_ok in Hc1. destruct Hc1 as [st1 [Hc1 Hc1']]. inversion Hc1'; subst st1'; clear Hc1'.
+      set (st0 := set_symbols st (enter_scope (c_symbols st))) in *.
+      assert (c_symbols st0 = stab k (outer ++ [cur]) []) as Hs0 by (unfold st0; cbn [set_symbols c_symbols]; rewrite Hs; reflexivity).
+      destruct (IHb lp st0 st1 k (outer ++ [cur]) [] HF Hs0 Hc1) as [ce [nb [CFb [Hlast [Hpop Hsim]]]]].
+      destruct CFb as [[k1 S1] C1 K1 L1 N1 B1].
+      cbn [app] in S1.
+      set (st1' := set_symbols st1 (leave_scope (c_symbols st1))) in *.
+      assert (c_symbols st1' = stab k1 outer cur) as Hs1'.
+      { unfold st1'. cbn [set_symbols c_symbols]. rewrite S1. apply leave_stab. }
+      assert (last_instruction_is OPop st1' = ends_pop (s0 :: r)) as Hlast'.
+      { rewrite <- Hlast by discriminate. reflexivity. }
+      rewrite Hlast' in Hc.
+      change (c_code st0) with (c_code st) in C1. change (c_constants st0) with (c_constants st) in K1.
+      change (c_loops st0) with (c_loops st) in L1, N1. change (code_len st0) with (code_len st) in B1.
+      destruct (ends_pop (s0 :: r)) eqn:Ep.
+      + (* the trailing Pop is removed *)
+        inversion Hc; subst st'; clear Hc.
+        destruct (Hpop eq_refl) as [[ce' Hce'] Bp].
+        assert (c_code st1' = (c_code st ++ ce') ++ [byte_of_opcode OPop]) as Hcode1.
+        { unfold st1'. cbn [set_symbols c_code]. rewrite C1, Hce', app_assoc. reflexivity. }
+        destruct (code_len_remove_last st1' _ Hcode1) as [Hcode' Hlen'].
+        change (code_len st1') with (code_len st1) in Hlen'.
+        change (code_len st0) with (code_len st) in Bp.
+        exists ce', nb. split.
+        * constructor.
+          -- exists k1. exact Hs1'.
+          -- exact Hcode'.
+          -- exact K1.
+          -- exact L1.
+          -- exact N1.
+          -- rewrite Hlen'. exact Bp.
+        * intros prog lexit [E1 E2 E3] Hle Hst fuel s Hip.
+          assert (env_ok prog st0 st1 (canon true ce) nb lexit) as E0.
+          { constructor; [|exact E2|exact E3]. unfold canon. rewrite Hce', removelast_last. exact E1. }
+          specialize (Hsim prog lexit E0 Hle Hst fuel s VNull Hip).
+          rewrite flat_enter in Hsim. rewrite Hlen'.
+          destruct (xstmts orc fuel (flat outer cur) (s0 :: r) VNull (mst_of s)); exact Hsim.
+      + (* no value on the stack: Null *)
+        inversion Hc; subst st'; clear Hc.
+        assert (cfacts st st1' outer cur ce nb) as CF1.
+        { constructor; try assumption. exists k1. exact Hs1'. }
+        pose proof (cfacts_emit_opcode ONull st1' outer cur k1 Hs1') as CF2.
+        pose proof (cfacts_trans _ _ _ _ _ _ _ _ _ _ CF1 CF2) as CF.
+        eexists; eexists. split; [exact CF|].
+        intros prog lexit E Hle Hst fuel s Hip.
+        pose proof (env_left _ _ _ _ _ _ _ _ _ _ _ _ CF1 CF2 E) as [EL1 EL2 EL3].
+        pose proof (env_right _ _ _ _ _ _ _ _ _ _ _ _ CF1 CF2 E) as [ERc _ _].
+        assert (env_ok prog st0 st1 (canon false ce) nb lexit) as E0 by (constructor; assumption).
+        specialize (Hsim prog lexit E0 Hle Hst fuel s VNull Hip).
+        rewrite flat_enter in Hsim.
+        destruct (xstmts orc fuel (flat outer cur) (s0 :: r) VNull (mst_of s)) as [v m'|m'|m'|e|y|] eqn:Ex;
+          try exact Hsim.
+        cbn [sim_l sim2] in *. destruct Hsim as [fin1 Hsim].
+        assert (v = VNull) as -> by (apply (xstmts_no_pop_null orc fuel (s0 :: r) _ _ _ _ _ ltac:(discriminate) Ep Ex)).
+        set (sa := setx s (v_stack s) (v_slen s) (code_len st1) m' fin1) in *.
+        exists fin1. apply (reaches_trans orc prog s sa _ Hsim). apply reaches_step.
+        cbn [brk_holes flat_map] in ERc.
+        pose proof (code_x_at1 _ _ _ _ _ ERc (fun x => x)) as Hat.
+        change (code_len st1') with (v_ip sa) in Hat.
+        rewrite (step_null orc prog sa [] Hat). f_equal. f_equal.
+        subst sa. unfold setm, setx, mst_of. vmcbn2. rewrite code_len_emit_opcode. reflexivity.
+  Qed.
+
+
+  (** ** Patches and splitting the environment *)
+
+  Lemma replace_nth_app2 : forall A (a b : list A) j v,
+    replace_nth (length a + j) v (a ++ b) = a ++ replace_nth j v b.
+  Proof. intros A a b j v. induction a as [|x a IH]; cbn [length app replace_nth Nat.add]; [reflexivity|]. rewrite IH. reflexivity. Qed.
+
+  Lemma patch_operand : forall (a : list Z) x y z b v1 v2,
+    replace_nth (length a + 2) v2 (replace_nth (length a + 1) v1 (a ++ x :: y :: z :: b))
+    = a ++ x :: v1 :: v2 :: b.
+  Proof. intros. rewrite !replace_nth_app2. reflexivity. Qed.
+
+  Lemma cfacts_patch_at : forall stA stB stC outer cur pre x y z rest nb v,
+    cfacts stA stB outer cur (pre ++ x :: y :: z :: rest) nb ->
+    change_jump_operand_at (code_len stA + zlength pre) v stB = Ok stC ->
+    cfacts stA stC outer cur (pre ++ x :: v mod 256 :: (v / 256) mod 256 :: rest) nb /\
+    code_len stC = code_len stB /\ c_last stC = c_last stB.
+  Proof.
+    intros stA stB stC outer cur pre x y z rest nb v [S C K L N B] H.
+    assert (0 <= code_len stA + zlength pre) as Hpos.
+    { pose proof (code_len_nonneg stA). pose proof (zlength_nonneg _ pre). lia. }
+    destruct (change_jump_spec _ _ _ _ Hpos H) as [A1 [A2 [A3 [A4 [_ [A6 [_ A8]]]]]]].
+    pose proof (code_len_length _ _ A6) as Hlen. split; [|split; [exact Hlen|exact A4]].
+    constructor.
+    - destruct S as [k' S]. exists k'. congruence.
+    - rewrite A8, C. unfold code_len, zlength.
+      replace (Z.to_nat (Z.of_nat (length (c_code stA)) + Z.of_nat (length pre))) with (length (c_code stA ++ pre))
+        by (rewrite app_length; lia).
+      rewrite app_assoc, patch_operand, <- app_assoc. reflexivity.
+    - destruct K as [kx [K1 K2]]. exists kx. split; [congruence|exact K2].
+    - congruence.
+    - exact N.
+    - rewrite Hlen. exact B.
+  Qed.
+
+  Lemma env_split : forall prog st st1 st2 c1 X nb1 nb2 lexit hi,
+    code_len st1 = code_len st + zlength c1 ->
+    brk_ok (code_len st) nb1 (code_len st1) -> brk_ok (code_len st1) nb2 hi ->
+    (exists kx, c_constants st2 = c_constants st1 ++ kx /\ Forall is_kint kx) ->
+    env_ok prog st st2 (c1 ++ X) (nb1 ++ nb2) lexit ->
+    env_ok prog st st1 c1 nb1 lexit /\ env_ok prog st1 st2 X nb2 lexit.
+  Proof.
+    intros prog st st1 st2 c1 X nb1 nb2 lexit hi Hlen B1 B2 HK [E1 E2 E3].
+    apply code_x_app in E1. destruct E1 as [E1a E1b]. rewrite <- Hlen in E1b.
+    destruct (brk_target_app _ _ _ _ E3) as [T1 T2].
+    split; constructor.
+    - apply (code_x_restrict prog _ c1 _ _ E1a). intros p Hp Hin.
+      rewrite brk_holes_app in Hin. apply in_app_or in Hin. destruct Hin as [Hin|Hin]; [exact Hin|].
+      pose proof (brk_holes_range _ _ _ _ B2 Hin) as R. lia.
+    - apply (consts_ok_ext prog _ _ HK). exact E2.
+    - exact T1.
+    - apply (code_x_restrict prog _ X _ _ E1b). intros p Hp Hin.
+      rewrite brk_holes_app in Hin. apply in_app_or in Hin. destruct Hin as [Hin|Hin]; [|exact Hin].
+      pose proof (brk_holes_range _ _ _ _ B1 Hin) as R. lia.
+    - exact E2.
+    - exact T2.
+  Qed.
+
+  Lemma operand16_code_len : forall st t, operand 16 (code_len st) = Ok t -> t = code_len st /\ 0 <= t < 65536.
+  Proof.
+    intros st t H. destruct (operand16_ok _ _ (code_len_nonneg st) H) as [-> R]. split; [reflexivity|exact R].
+  Qed.
+
+  Lemma cfacts_emit_u16op : forall op v st outer cur k, c_symbols st = stab k outer cur ->
+    cfacts st (emit_u16 v (emit_opcode op st)) outer cur [byte_of_opcode op; v mod 256; (v / 256) mod 256] [].
+  Proof.
+    intros. apply (cfacts_emit _ _ outer cur k); auto.
+    cbn [emit_u16 emit_opcode c_code]. rewrite <- app_assoc. reflexivity.
+  Qed.
+
+  Lemma consts_refl : forall st : cstate, exists kx, c_constants st = c_constants st ++ kx /\ Forall is_kint kx.
+  Proof. intros. exists []. rewrite app_nil_r. split; [reflexivity|constructor]. Qed.
+
+
+  (** ** als *)
+
+  Definition cext (st st' : cstate) : Prop :=
+    exists kx, c_constants st' = c_constants st ++ kx /\ Forall is_kint kx.
+
+  Lemma cext_refl : forall st, cext st st.
+  Proof. intros. apply consts_refl. Qed.
+  Lemma cext_trans : forall a b c, cext a b -> cext b c -> cext a c.
+  Proof.
+    intros a b c [k1 [H1 F1]] [k2 [H2 F2]]. exists (k1 ++ k2). split; [rewrite H2, H1, app_assoc; reflexivity|].
+    apply Forall_app; auto.
+  Qed.
+  Lemma cext_eq : forall a b, c_constants b = c_constants a -> cext a b.
+  Proof. intros a b H. exists []. rewrite app_nil_r. split; [exact H|constructor]. Qed.
+  Lemma cext_cfacts : forall st st' outer cur ce nb, cfacts st st' outer cur ce nb -> cext st st'.
+  Proof. intros st st' outer cur ce nb H. exact (cf_consts _ _ _ _ _ _ H). Qed.
+
+  Lemma env_consts_eq : forall prog st st1 st2 ce nb lexit, c_constants st2 = c_constants st1 ->
+    env_ok prog st st1 ce nb lexit -> env_ok prog st st2 ce nb lexit.
+  Proof. intros prog st st1 st2 ce nb lexit H [E1 E2 E3]. constructor; try assumption. rewrite H. exact E2. Qed.
+
+  Lemma cfacts_eq : forall st st' outer cur ce nb ce' nb', cfacts st st' outer cur ce nb ->
+    ce = ce' -> nb = nb' -> cfacts st st' outer cur ce' nb'.
+  Proof. intros; subst; assumption. Qed.
+
+  Lemma esim_if : forall c t alt, esim c -> lsim t ->
+    match alt with Some b => lsim b | None => True end -> esim (EIf c t alt).
+  Proof.
+    intros c t alt IHc IHt IHa lp st st' k outer cur HF Hs Hc.
+    rewrite f2e_if in HF. apply andb_prop in HF. destruct HF as [HF Hfa].
+    apply andb_prop in HF. destruct HF as [Hfc Hft].
+    rewrite ce_if in Hc. cbv zeta in Hc.
+    apply bind_ok in Hc. destruct Hc as [st1 [H1 Hc]].
+    apply bind_ok in Hc. destruct Hc as [st3 [H3 Hc]].
+    apply bind_ok in Hc. destruct Hc as [t1 [Ht1 Hc]].
+    apply bind_ok in Hc. destruct Hc as [st5 [H5 Hc]].
+    apply bind_ok in Hc. destruct Hc as [st6 [H6 Hc]].
+    apply bind_ok in Hc. destruct Hc as [t2 [Ht2 Hc]].
+    (* the pieces *)
+    destruct (IHc false st st1 k outer cur Hfc Hs H1) as [ce_c [nb_c [CF1 Hsimc]]].
+    destruct (cf_syms _ _ _ _ _ _ CF1) as [k1 Hs1].
+    set (st2 := emit_u16 JUMP_PLACEHOLDER (emit_opcode OJumpIfFalse st1)) in *.
+    pose proof (cfacts_emit_u16op OJumpIfFalse JUMP_PLACEHOLDER st1 outer cur k1 Hs1) as CF2. fold st2 in CF2.
+    assert (c_symbols st2 = stab k1 outer cur) as Hs2 by exact Hs1.
+    destruct (bv_sim t IHt lp st2 st3 k1 outer cur Hft Hs2 H3) as [ce_t [nb_t [CF3 Hsimt]]].
+    destruct (cf_syms _ _ _ _ _ _ CF3) as [k3 Hs3].
+    set (st4 := emit_u16 JUMP_PLACEHOLDER (emit_opcode OJump st3)) in *.
+    pose proof (cfacts_emit_u16op OJump JUMP_PLACEHOLDER st3 outer cur k3 Hs3) as CF4. fold st4 in CF4.
+    destruct (operand16_code_len _ _ Ht1) as [-> Rt1].
+    pose proof (cfacts_len _ _ _ _ _ _ CF1) as L1. pose proof (cfacts_len _ _ _ _ _ _ CF2) as L2.
+    pose proof (cfacts_len _ _ _ _ _ _ CF3) as L3. pose proof (cfacts_len _ _ _ _ _ _ CF4) as L4.
+    rewrite zlength3 in L2, L4.
+    pose proof (cfacts_trans _ _ _ _ _ _ _ _ _ _ CF1 (cfacts_trans _ _ _ _ _ _ _ _ _ _ CF2
+                 (cfacts_trans _ _ _ _ _ _ _ _ _ _ CF3 CF4))) as CF14.
+    cbn [app] in CF14. rewrite L1 in H5.
+    destruct (cfacts_patch_at _ _ _ _ _ _ _ _ _ _ _ (code_len st4) CF14 H5) as [CF15 [L5 _]].
+    destruct (cf_syms _ _ _ _ _ _ CF15) as [k5 Hs5].
+    set (names := flat outer cur) in *.
+    (* the alternative *)
+    assert (exists ce_a nb_a, cfacts st5 st6 outer cur ce_a nb_a /\
+              forall prog lexit, env_ok prog st5 st6 ce_a nb_a lexit -> 0 <= lexit < 65536 ->
+              0 <= cur_start (c_loops st5) ->
+              forall f s, v_ip s = code_len st5 ->
+              sim2 prog s (code_len st6) (cur_start (c_loops st5)) lexit
+                   (match alt with
+                    | Some bl => xstmts orc f names bl VNull (mst_of s)
+                    | None => XOk VNull (mst_of s)
+                    end)) as [ce_a [nb_a [CF6 Hsima]]].
+    { destruct alt as [bl|].
+      - exact (bv_sim bl IHa lp st5 st6 k5 outer cur Hfa Hs5 H6).
+      - inversion H6; subst st6. exists [byte_of_opcode ONull], [].
+        split; [exact (cfacts_emit_opcode ONull st5 outer cur k5 Hs5)|].
+        intros prog lexit [E1 _ _] _ _ f s Hip. cbn [sim2]. exists (v_final s). apply reaches_step.
+        rewrite <- Hip in E1. pose proof (code_x_at1 _ _ _ _ _ E1 (fun x => x)) as Hat.
+        rewrite (step_null orc prog s [] Hat), setm_setx. f_equal. f_equal.
+        apply setx_eq; [reflexivity|]. rewrite code_len_emit_opcode, Hip. reflexivity. }
+    clear H6.
+    destruct (operand16_code_len _ _ Ht2) as [-> Rt2].
+    pose proof (cfacts_len _ _ _ _ _ _ CF6) as L6.
+    pose proof (cfacts_trans _ _ _ _ _ _ _ _ _ _ CF15 CF6) as CF16.
+    set (T1 := code_len st4) in *. set (T2 := code_len st6) in *.
+    set (jif3 := [byte_of_opcode OJumpIfFalse; T1 mod 256; (T1 / 256) mod 256]).
+    set (PHlo := JUMP_PLACEHOLDER mod 256) in *. set (PHhi := (JUMP_PLACEHOLDER / 256) mod 256) in *.
+    assert ((ce_c ++ byte_of_opcode OJumpIfFalse :: T1 mod 256 :: (T1 / 256) mod 256
+                   :: ce_t ++ [byte_of_opcode OJump; PHlo; PHhi]) ++ ce_a
+            = (ce_c ++ jif3 ++ ce_t) ++ byte_of_opcode OJump :: PHlo :: PHhi :: ce_a) as Ereassoc.
+    { unfold jif3. rewrite <- !app_assoc. cbn [app]. rewrite <- !app_assoc. reflexivity. }
+    rewrite Ereassoc in CF16.
+    assert (code_len st3 = code_len st + zlength (ce_c ++ jif3 ++ ce_t)) as Lpre.
+    { rewrite !zlength_app. unfold jif3. rewrite zlength3. lia. }
+    rewrite Lpre in Hc.
+    destruct (cfacts_patch_at _ _ _ _ _ _ _ _ _ _ _ T2 CF16 Hc) as [CF [L' _]].
+    set (jmp3 := [byte_of_opcode OJump; T2 mod 256; (T2 / 256) mod 256]).
+    assert ((ce_c ++ jif3 ++ ce_t) ++ byte_of_opcode OJump :: T2 mod 256 :: (T2 / 256) mod 256 :: ce_a
+            = ce_c ++ jif3 ++ ce_t ++ jmp3 ++ ce_a) as Efinal.
+    { unfold jmp3. rewrite <- !app_assoc. reflexivity. }
+    exists (ce_c ++ jif3 ++ ce_t ++ jmp3 ++ ce_a), (nb_c ++ nb_t ++ nb_a).
+    assert (cfacts st st' outer cur (ce_c ++ jif3 ++ ce_t ++ jmp3 ++ ce_a) (nb_c ++ nb_t ++ nb_a)) as CF'.
+    { rewrite Efinal in CF. apply (cfacts_eq _ _ _ _ _ _ _ _ CF); [reflexivity|].
+      rewrite <- ?app_assoc; cbn [app]; rewrite <- ?app_assoc, ?app_nil_r; reflexivity. }
+    clear CF. rename CF' into CF.
+    split; [exact CF|].
+    (* the run *)
+    intros prog lexit E Hle Hst fuel s Hip. destruct fuel as [|f]; [exact I|].
+    rewrite xe_if. fold names.
+    (* loop contexts along the way *)
+    pose proof (cf_loops _ _ _ _ _ _ CF1) as Lp1.
+    assert (c_loops st2 = c_loops st1) as Lp2 by reflexivity.
+    pose proof (cf_loops _ _ _ _ _ _ CF3) as Lp3.
+    pose proof (cf_loops _ _ _ _ _ _ CF15) as Lp5.
+    assert (cur_start (c_loops st2) = cur_start (c_loops st)) as Cs2 by (rewrite Lp2, Lp1; apply cur_start_add).
+    assert (cur_start (c_loops st5) = cur_start (c_loops st)) as Cs5 by (rewrite Lp5; apply cur_start_add).
+    (* constants *)
+    assert (c_constants st' = c_constants st6) as K'.
+    { assert (0 <= code_len st + zlength (ce_c ++ jif3 ++ ce_t)) as Hp by (rewrite <- Lpre; apply code_len_nonneg).
+      exact (proj1 (proj2 (change_jump_spec _ _ _ _ Hp Hc))). }
+    assert (c_constants st5 = c_constants st4) as K5.
+    { assert (0 <= code_len st + zlength ce_c) as Hp by (rewrite <- L1; apply code_len_nonneg).
+      exact (proj1 (proj2 (change_jump_spec _ _ _ _ Hp H5))). }
+    assert (cext st6 st') as X6 by (apply cext_eq; exact K').
+    assert (cext st5 st') as X5 by (exact (cext_trans _ _ _ (cext_cfacts _ _ _ _ _ _ CF6) X6)).
+    assert (cext st3 st') as X3.
+    { apply (cext_trans _ st4); [exact (cext_cfacts _ _ _ _ _ _ CF4)|].
+      apply (cext_trans _ st5); [apply cext_eq; exact K5|exact X5]. }
+    assert (cext st2 st') as X2 by (exact (cext_trans _ _ _ (cext_cfacts _ _ _ _ _ _ CF3) X3)).
+    assert (cext st1 st') as X1 by (exact (cext_trans _ _ _ (cext_cfacts _ _ _ _ _ _ CF2) X2)).
+    (* pending stops *)
+    pose proof (cf_brk _ _ _ _ _ _ CF1) as B1. pose proof (cf_brk _ _ _ _ _ _ CF3) as B3.
+    pose proof (cf_brk _ _ _ _ _ _ CF6) as B6.
+    assert (brk_ok (code_len st3) nb_a (code_len st6)) as B36 by (apply (brk_ok_widen _ _ _ _ _ B6); lia).
+    assert (brk_ok (code_len st2) (nb_t ++ nb_a) (code_len st6)) as B26 by (exact (brk_ok_app _ _ _ _ _ B3 B36)).
+    assert (brk_ok (code_len st1) (nb_t ++ nb_a) (code_len st6)) as B16 by (apply (brk_ok_widen _ _ _ _ _ B26); lia).
+    (* the environments of the pieces *)
+    cbn [app] in E.
+    destruct (env_split prog st st1 st' ce_c _ nb_c (nb_t ++ nb_a) lexit _ L1 B1 B16 X1 E) as [Ec E1].
+    assert (code_len st2 = code_len st1 + zlength jif3) as L2' by (unfold jif3; rewrite zlength3; exact L2).
+    destruct (env_split prog st1 st2 st' jif3 _ [] (nb_t ++ nb_a) lexit _ L2'
+                ltac:(cbn [brk_ok]; lia) B26 X2 E1) as [Ej E2].
+    destruct (env_split prog st2 st3 st' ce_t _ nb_t nb_a lexit _ L3 B3 B36 X3 E2) as [Et E3].
+    assert (code_len st5 = code_len st3 + zlength jmp3) as L5' by (unfold jmp3; rewrite zlength3; lia).
+    destruct (env_split prog st3 st5 st' jmp3 _ [] nb_a lexit _ L5'
+                ltac:(cbn [brk_ok]; lia) B6 X5 E3) as [Em E4].
+    assert (env_ok prog st5 st6 ce_a nb_a lexit) as Ea.
+    { destruct E4 as [A1 A2 A3]. constructor; try assumption. rewrite <- K'. exact A2. }
+    (* condition *)
+    specialize (Hsimc prog lexit Ec Hle Hst f s Hip).
+    destruct (xeval orc f names c (mst_of s)) as [b m1|m1|m1|e|y|] eqn:E1c; cbn [xbind];
+      try exact Hsimc; try (nosig_contra f c names (mst_of s) Hfc E1c).
+    cbn [sim2] in Hsimc. destruct Hsimc as [fin1 Hsimc].
+    set (sa := setx s (b :: v_stack s) (v_slen s + 1) (code_len st1) m1 fin1) in *.
+    destruct Ej as [Ejc _ _]. cbn [brk_holes flat_map] in Ejc.
+    pose proof (code_x_at3 _ _ _ _ _ _ _ Ejc (holes_free_nil _ _)) as Hjif.
+    pose proof (step_jif orc prog sa T1 b (v_stack s) [] Hjif Rt1 eq_refl) as Hstepj.
+    destruct b as [|bb| | | | |];
+      try (cbn [sim2]; apply (reaches_stops orc prog s sa _ _ Hsimc); apply (stops_now orc prog sa _ Hstepj)).
+    destruct bb.
+    - (* the consequence *)
+      set (sb := setx s (v_stack s) (v_slen s) (code_len st2) m1 fin1).
+      assert (setm sa (v_stack s) (v_slen sa - 1) (v_ip sa + 3) (mst_of sa) = sb) as Esb.
+      { subst sa sb. unfold setm, setx, mst_of. vmcbn2. f_equal; lia. }
+      cbn [negb] in Hstepj. rewrite Esb in Hstepj.
+      assert (reaches orc prog s sb) as Hsb.
+      { apply (reaches_trans orc prog s sa _ Hsimc). apply reaches_step. exact Hstepj. }
+      assert (0 <= cur_start (c_loops st2)) as Hst2 by (rewrite Cs2; exact Hst).
+      specialize (Hsimt prog lexit Et Hle Hst2 f sb eq_refl). rewrite Cs2 in Hsimt.
+      unfold sb in Hsimt at 2. rewrite mst_of_setx in Hsimt. fold names in Hsimt.
+      destruct (xstmts orc f names t VNull m1) as [v m2|m2|m2|e|y|]; cbn [sim2] in *;
+        try (destruct Hsimt as [fin2 Hsimt]; exists fin2; apply (reaches_trans orc prog s sb _ Hsb); exact Hsimt);
+        try (apply (reaches_stops orc prog s sb _ _ Hsb); exact Hsimt); try exact I.
+      destruct Hsimt as [fin2 Hsimt].
+      set (sc := setx sb (v :: v_stack sb) (v_slen sb + 1) (code_len st3) m2 fin2) in *.
+      exists fin2. apply (reaches_trans orc prog s sb _ Hsb). apply (reaches_trans orc prog sb sc _ Hsimt).
+      destruct Em as [Emc _ _]. cbn [brk_holes flat_map] in Emc.
+      pose proof (code_x_at3 _ _ _ _ _ _ _ Emc (holes_free_nil _ _)) as Hjmp.
+      apply reaches_step. rewrite (step_jump orc prog sc T2 [] Hjmp Rt2). f_equal. f_equal.
+      subst sc sb. unfold setm, setx, mst_of. vmcbn2. rewrite L'. reflexivity.
+    - (* the alternative *)
+      set (sb := setx s (v_stack s) (v_slen s) (code_len st5) m1 fin1).
+      assert (setm sa (v_stack s) (v_slen sa - 1) T1 (mst_of sa) = sb) as Esb.
+      { subst sa sb. unfold setm, setx, mst_of. vmcbn2. rewrite L5. f_equal; lia. }
+      cbn [negb] in Hstepj. rewrite Esb in Hstepj.
+      assert (reaches orc prog s sb) as Hsb.
+      { apply (reaches_trans orc prog s sa _ Hsimc). apply reaches_step. exact Hstepj. }
+      assert (0 <= cur_start (c_loops st5)) as Hst5 by (rewrite Cs5; exact Hst).
+      specialize (Hsima prog lexit Ea Hle Hst5 f sb eq_refl). rewrite Cs5 in Hsima.
+      unfold sb in Hsima at 2 3. rewrite !mst_of_setx in Hsima. rewrite L'.
+      destruct (match alt with
+                | Some bl => xstmts orc f names bl VNull m1
+                | None => XOk VNull m1
+                end) as [v m2|m2|m2|e|y|]; cbn [sim2] in *;
+        try (destruct Hsima as [fin2 Hsima]; exists fin2; apply (reaches_trans orc prog s sb _ Hsb); exact Hsima);
+        try (apply (reaches_stops orc prog s sb _ _ Hsb); exact Hsima); exact I.
+  Qed.
+
+
+  (** ** From the canonical form to statement mode: the trailing Pop is executed *)
+
+  Definition sim_full (prog : program) (s : vm) (pop : bool) (ipend lstart lexit : Z) (r : xres val) : Prop :=
+    match r with
+    | XOk v m' => exists fin', reaches orc prog s (setx s (v_stack s) (v_slen s) ipend m' fin')
+                               /\ (pop = true -> fin' = v)
+    | XBrk m' => exists fin', reaches orc prog s (setx s (VNull :: v_stack s) (v_slen s + 1) lexit m' fin')
+    | XCnt m' => exists fin', reaches orc prog s (setx s (VNull :: v_stack s) (v_slen s + 1) lstart m' fin')
+    | XErr k => stops orc prog s (Err k) (v_out s)
+    | XFault f => stops orc prog s (Fault f) (v_out s)
+    | XFuel => True
+    end.
+
+  Lemma stmt_mode : forall l st st' outer cur ce nb, lconcl l st st' outer cur ce nb ->
+    forall prog lexit, env_ok prog st st' ce nb lexit -> 0 <= lexit < 65536 ->
+    0 <= cur_start (c_loops st) ->
+    forall fuel s last, v_ip s = code_len st ->
+    sim_full prog s (ends_pop l) (code_len st') (cur_start (c_loops st)) lexit
+             (xstmts orc fuel (flat outer cur) l last (mst_of s)).
+  Proof.
+    intros l st st' outer cur ce nb [CF [Hlast [Hpop Hsim]]] prog lexit E Hle Hst fuel s last Hip.
+    destruct (ends_pop l) eqn:Ep.
+    - destruct (Hpop eq_refl) as [[ce' Hce'] Bp].
+      pose proof (cf_code _ _ _ _ _ _ CF) as Hcode. rewrite Hce', app_assoc in Hcode.
+      destruct (code_len_remove_last st' _ Hcode) as [Hcm Hlm].
+      set (stm := remove_last_instruction st') in *.
+      assert (code_len stm = code_len st + zlength ce') as Hlen.
+      { unfold code_len at 1. rewrite Hcm, zlength_app. reflexivity. }
+      rewrite <- Hlm in Bp. rewrite <- (app_nil_r nb), Hce' in E.
+      destruct (env_split prog st stm st' ce' _ nb [] lexit (code_len st') Hlen Bp
+                  ltac:(cbn [brk_ok]; lia) (cext_eq stm st' eq_refl) E) as [Ec Ep'].
+      assert (env_ok prog st st' (canon true ce) nb lexit) as E0.
+      { unfold canon. rewrite Hce', removelast_last. exact (env_consts_eq _ _ stm st' _ _ _ eq_refl Ec). }
+      specialize (Hsim prog lexit E0 Hle Hst fuel s last Hip).
+      destruct (xstmts orc fuel (flat outer cur) l last (mst_of s)) as [v m'|m'|m'|e|y|]; try exact Hsim.
+      cbn [sim_l sim_full] in *. destruct Hsim as [fin1 Hsim].
+      set (sa := setx s (v :: v_stack s) (v_slen s + 1) (code_len st' - 1) m' fin1) in *.
+      exists v. split; [|reflexivity]. apply (reaches_trans orc prog s sa _ Hsim). apply reaches_step.
+      destruct Ep' as [Epc _ _]. cbn [brk_holes flat_map] in Epc. rewrite Hlm in Epc.
+      pose proof (code_x_at1 _ _ _ _ _ Epc (fun x => x)) as Hat.
+      rewrite (step_pop orc prog sa v (v_stack s) [] Hat eq_refl). f_equal. f_equal.
+      subst sa. unfold setx. vmcbn2. f_equal; lia.
+    - specialize (Hsim prog lexit E Hle Hst fuel s last Hip).
+      destruct (xstmts orc fuel (flat outer cur) l last (mst_of s)) as [v m'|m'|m'|e|y|]; try exact Hsim.
+      cbn [sim_l sim_full] in *. destruct Hsim as [fin1 Hsim]. exists fin1. split; [exact Hsim|discriminate].
+  Qed.
+
+  (** ** Statement lists *)
+
+  Lemma lsim_nil : lsim [].
+  Proof.
+    intros lp st st' k outer cur HF Hs Hc. cbn [compile_statements] in Hc. inversion Hc; subst st'; clear Hc.
+    exists [], []. split; [|split; [intros N; contradiction|split; [intros N; discriminate N|]]].
+    - cbn [decl_names]. rewrite app_nil_r. apply (cfacts_emit _ _ outer cur k); auto. rewrite app_nil_r. reflexivity.
+    - intros prog lexit _ _ _ fuel s last Hip. destruct fuel as [|f]; [exact I|]. rewrite xs_nil.
+      cbn [ends_pop sim_l]. exists (v_final s). exists O. cbn [steps]. f_equal.
+      destruct s; unfold setx, mst_of; cbn in *. subst. reflexivity.
+  Qed.
+
+
+  (** ** One statement in front of a list: the generic step *)
+
+  (* the canonical simulation of something that evaluates as R *)
+  Definition gconcl (pop : bool) (R : nat -> mst -> xres val) (st st' : cstate) (ce nb : list Z) : Prop :=
+    (pop = true -> (exists ce', ce = ce' ++ [byte_of_opcode OPop]) /\
+                   brk_ok (code_len st) nb (code_len st' - 1)) /\
+    forall prog lexit, env_ok prog st st' (canon pop ce) nb lexit -> 0 <= lexit < 65536 ->
+    0 <= cur_start (c_loops st) ->
+    forall fuel s, v_ip s = code_len st ->
+    sim_l prog s pop (code_len st') (cur_start (c_loops st)) lexit (R fuel (mst_of s)).
+
+  Lemma stmt_mode_g : forall pop R st st' outer cur ce nb, cfacts st st' outer cur ce nb ->
+    gconcl pop R st st' ce nb ->
+    forall prog lexit, env_ok prog st st' ce nb lexit -> 0 <= lexit < 65536 ->
+    0 <= cur_start (c_loops st) ->
+    forall fuel s, v_ip s = code_len st ->
+    sim_full prog s pop (code_len st') (cur_start (c_loops st)) lexit (R fuel (mst_of s)).
+  Proof.
+    intros pop R st st' outer cur ce nb CF [Hpop Hsim] prog lexit E Hle Hst fuel s Hip.
+    destruct pop.
+    - destruct (Hpop eq_refl) as [[ce' Hce'] Bp].
+      pose proof (cf_code _ _ _ _ _ _ CF) as Hcode. rewrite Hce', app_assoc in Hcode.
+      destruct (code_len_remove_last st' _ Hcode) as [Hcm Hlm].
+      set (stm := remove_last_instruction st') in *.
+      assert (code_len stm = code_len st + zlength ce') as Hlen.
+      { unfold code_len at 1. rewrite Hcm, zlength_app. reflexivity. }
+      rewrite <- Hlm in Bp. rewrite <- (app_nil_r nb), Hce' in E.
+      destruct (env_split prog st stm st' ce' _ nb [] lexit (code_len st') Hlen Bp
+                  ltac:(cbn [brk_ok]; lia) (cext_eq stm st' eq_refl) E) as [Ec Ep'].
+      assert (env_ok prog st st' (canon true ce) nb lexit) as E0.
+      { unfold canon. rewrite Hce', removelast_last. exact (env_consts_eq _ _ stm st' _ _ _ eq_refl Ec). }
+      specialize (Hsim prog lexit E0 Hle Hst fuel s Hip).
+      destruct (R fuel (mst_of s)) as [v m'|m'|m'|e|y|]; try exact Hsim.
+      cbn [sim_l sim_full] in *. destruct Hsim as [fin1 Hsim].
+      set (sa := setx s (v :: v_stack s) (v_slen s + 1) (code_len st' - 1) m' fin1) in *.
+      exists v. split; [|reflexivity]. apply (reaches_trans orc prog s sa _ Hsim). apply reaches_step.
+      destruct Ep' as [Epc _ _]. cbn [brk_holes flat_map] in Epc. rewrite Hlm in Epc.
+      pose proof (code_x_at1 _ _ _ _ _ Epc (fun x => x)) as Hat.
+      rewrite (step_pop orc prog sa v (v_stack s) [] Hat eq_refl). f_equal. f_equal.
+      subst sa. unfold setx. vmcbn2. f_equal; lia.
+    - specialize (Hsim prog lexit E Hle Hst fuel s Hip).
+      destruct (R fuel (mst_of s)) as [v m'|m'|m'|e|y|]; try exact Hsim.
+      cbn [sim_l sim_full] in *. destruct Hsim as [fin1 Hsim]. exists fin1. split; [exact Hsim|discriminate].
+  Qed.
+
+  Lemma decl_names_cons : forall s0 r, decl_names (s0 :: r) = decl_names [s0] ++ decl_names r.
+  Proof. intros s0 r. destruct s0; reflexivity. Qed.
+
+  Lemma ends_pop_cons2 : forall s0 s1 r, ends_pop (s0 :: s1 :: r) = ends_pop (s1 :: r).
+  Proof. reflexivity. Qed.
+
+  Lemma cons_sim : forall s0 r ph Hd st st1 st' outer cur ce_h nb_h lp,
+    cfacts st st1 outer (cur ++ decl_names [s0]) ce_h nb_h ->
+    last_instruction_is OPop st1 = ph -> ph = stmt_pop s0 ->
+    gconcl ph Hd st st1 ce_h nb_h ->
+    (forall f last m, xstmts orc (S f) (flat outer cur) (s0 :: r) last m =
+                      xbind (Hd f m) (fun v m1 => xstmts orc f (flat outer (cur ++ decl_names [s0])) r v m1)) ->
+    lsim r -> f2b lp r = true -> compile_statements r st1 = Ok st' ->
+    exists ce nb, lconcl (s0 :: r) st st' outer cur ce nb.
+  Proof.
+    intros s0 r ph Hd st st1 st' outer cur ce_h nb_h lp CFh Hlast Hph Gh Heq IHr HFr Hc.
+    destruct (cf_syms _ _ _ _ _ _ CFh) as [k1 Hs1].
+    destruct r as [|s1 r'].
+    - (* the last statement: its canonical form is the list's *)
+      cbn [compile_statements] in Hc. inversion Hc; subst st'; clear Hc.
+      exists ce_h, nb_h. destruct Gh as [Gpop Gsim].
+      split; [|split; [|split]].
+      + rewrite decl_names_cons. cbn [decl_names]. rewrite app_nil_r. exact CFh.
+      + intros _. cbn [ends_pop]. rewrite Hlast. exact Hph.
+      + cbn [ends_pop]. rewrite <- Hph. exact Gpop.
+      + intros prog lexit E Hle Hst fuel s last Hip. cbn [ends_pop] in *. rewrite <- Hph in *.
+        destruct fuel as [|f]; [exact I|]. rewrite Heq.
+        specialize (Gsim prog lexit E Hle Hst f s Hip).
+        destruct (Hd f (mst_of s)) as [v m1|m1|m1|e|y|]; cbn [xbind]; try exact Gsim.
+        destruct f as [|f']; [exact I|]. rewrite xs_nil. exact Gsim.
+    - (* more statements follow: the head in statement mode, then the rest *)
+      destruct (IHr lp st1 st' k1 outer (cur ++ decl_names [s0]) HFr Hs1 Hc) as [ce_r [nb_r Lr]].
+      pose proof Lr as [CFr [Hlastr [Hpopr Hsimr]]].
+      exists (ce_h ++ ce_r), (nb_h ++ nb_r).
+      pose proof (cfacts_trans _ _ _ _ _ _ _ _ _ _ CFh CFr) as CF.
+      split; [|split; [|split]].
+      + rewrite decl_names_cons, app_assoc. exact CF.
+      + intros _. rewrite ends_pop_cons2. apply Hlastr. discriminate.
+      + rewrite ends_pop_cons2. intros Ep. destruct (Hpopr Ep) as [[ce' Hce'] Bp]. split.
+        * exists (ce_h ++ ce'). rewrite Hce', app_assoc. reflexivity.
+        * apply (brk_ok_app _ _ _ (code_len st1)); [exact (cf_brk _ _ _ _ _ _ CFh)|exact Bp].
+      + intros prog lexit E Hle Hst fuel s last Hip. rewrite ends_pop_cons2 in *.
+        assert (canon (ends_pop (s1 :: r')) (ce_h ++ ce_r) = ce_h ++ canon (ends_pop (s1 :: r')) ce_r) as Ecanon.
+        { unfold canon. destruct (ends_pop (s1 :: r')) eqn:Ep; [|reflexivity].
+          destruct (Hpopr eq_refl) as [[ce' Hce'] _]. apply removelast_app. rewrite Hce'.
+          destruct ce'; discriminate. }
+        rewrite Ecanon in E.
+        destruct (env_split prog st st1 st' ce_h _ nb_h nb_r lexit _ (cfacts_len _ _ _ _ _ _ CFh)
+                    (cf_brk _ _ _ _ _ _ CFh) (cf_brk _ _ _ _ _ _ CFr) (cext_cfacts _ _ _ _ _ _ CFr) E) as [Eh Er].
+        destruct fuel as [|f]; [exact I|]. rewrite Heq.
+        pose proof (stmt_mode_g ph Hd st st1 outer _ ce_h nb_h CFh Gh prog lexit Eh Hle Hst f s Hip) as Hh.
+        destruct (Hd f (mst_of s)) as [v m1|m1|m1|e|y|]; cbn [xbind]; try exact Hh.
+        cbn [sim_full] in Hh. destruct Hh as [fin1 [Hh _]].
+        set (sb := setx s (v_stack s) (v_slen s) (code_len st1) m1 fin1) in *.
+        assert (0 <= cur_start (c_loops st1)) as Hst1.
+        { rewrite (cf_loops _ _ _ _ _ _ CFh), cur_start_add. exact Hst. }
+        specialize (Hsimr prog lexit Er Hle Hst1 f sb v eq_refl).
+        rewrite (cf_loops _ _ _ _ _ _ CFh), cur_start_add in Hsimr.
+        unfold sb in Hsimr at 2. rewrite mst_of_setx in Hsimr.
+        destruct (xstmts orc f (flat outer (cur ++ decl_names [s0])) (s1 :: r') v m1) as [v2 m2|m2|m2|e|y|];
+          cbn [sim_l] in *;
+          try (destruct Hsimr as [fin2 Hsimr]; exists fin2; apply (reaches_trans orc prog s sb _ Hh); exact Hsimr);
+          try (apply (reaches_stops orc prog s sb _ _ Hh); exact Hsimr); try exact I.
+        destruct (ends_pop (s1 :: r')); destruct Hsimr as [fin2 Hsimr]; exists fin2;
+          apply (reaches_trans orc prog s sb _ Hh); exact Hsimr.
+  Qed.
+
+
+  (** ** The five kinds of statement *)
+
+  Lemma cfacts_in : forall st t st1 outer cur ce nb,
+    cfacts (set_symbols st t) st1 outer cur ce nb -> cfacts st st1 outer cur ce nb.
+  Proof. intros st t st1 outer cur ce nb [S C K L N B]. constructor; assumption. Qed.
+
+  Lemma cfacts_out : forall st st1 t outer0 cur0 outer cur k' ce nb,
+    cfacts st st1 outer0 cur0 ce nb -> t = stab k' outer cur ->
+    cfacts st (set_symbols st1 t) outer cur ce nb.
+  Proof.
+    intros st st1 t outer0 cur0 outer cur k' ce nb [S C K L N B] Ht. constructor; try assumption.
+    exists k'. exact Ht.
+  Qed.
+
+  Lemma env_in : forall prog st t st1 ce nb lexit,
+    env_ok prog st st1 ce nb lexit -> env_ok prog (set_symbols st t) st1 ce nb lexit.
+  Proof. intros prog st t st1 ce nb lexit [E1 E2 E3]. constructor; assumption. Qed.
+
+  Lemma env_out : forall prog st st1 t ce nb lexit,
+    env_ok prog st (set_symbols st1 t) ce nb lexit -> env_ok prog st st1 ce nb lexit.
+  Proof. intros prog st st1 t ce nb lexit [E1 E2 E3]. constructor; assumption. Qed.
+
+  Lemma emit_sym_last : forall op sy st st', emit_sym op sy st = Ok st' -> c_last st' = Some op.
+  Proof.
+    intros op sy st st' H. unfold emit_sym in H. apply bind_ok in H. destruct H as [idx [_ H]].
+    inversion H; subst. reflexivity.
+  Qed.
+
+  Lemma ssim_expr : forall e, esim e -> ssim (SExpr e).
+  Proof.
+    intros e IHe r IHr lp st st' k outer cur HF Hs Hc.
+    rewrite f2b_cons in HF. apply andb_prop in HF. destruct HF as [HFe HFr]. cbn [f2s] in HFe.
+    cbn [compile_statements] in Hc. apply bind_ok in Hc. destruct Hc as [st2 [H2 Hc]].
+    rewrite cs_expr in H2. apply bind_ok in H2. destruct H2 as [st1 [H1 H2]]. inversion H2; subst st2; clear H2.
+    destruct (IHe lp st st1 k outer cur HFe Hs H1) as [ce_e [nb_e [CFe Hsime]]].
+    destruct (cf_syms _ _ _ _ _ _ CFe) as [k1 Hs1].
+    pose proof (cfacts_emit_opcode OPop st1 outer cur k1 Hs1) as CFp.
+    pose proof (cfacts_trans _ _ _ _ _ _ _ _ _ _ CFe CFp) as CFh. rewrite app_nil_r in CFh.
+    apply (cons_sim (SExpr e) r true (fun f m => xeval orc f (flat outer cur) e m)
+                    st (emit_opcode OPop st1) st' outer cur (ce_e ++ [byte_of_opcode OPop]) nb_e lp);
+      try assumption; try reflexivity.
+    - cbn [decl_names]. rewrite app_nil_r. exact CFh.
+    - split.
+      + intros _. split; [exists ce_e; reflexivity|]. rewrite code_len_emit_opcode.
+        replace (code_len st1 + 1 - 1) with (code_len st1) by lia. exact (cf_brk _ _ _ _ _ _ CFe).
+      + intros prog lexit E Hle Hst fuel s Hip. unfold canon in E. rewrite removelast_last in E.
+        assert (env_ok prog st st1 ce_e nb_e lexit) as Ee.
+        { destruct E as [A1 A2 A3]. constructor; assumption. }
+        specialize (Hsime prog lexit Ee Hle Hst fuel s Hip). rewrite code_len_emit_opcode.
+        destruct (xeval orc fuel (flat outer cur) e (mst_of s)); try exact Hsime.
+        cbn [sim_l sim2] in *. replace (code_len st1 + 1 - 1) with (code_len st1) by lia. exact Hsime.
+    - intros f last m. rewrite xs_expr. cbn [decl_names]. rewrite app_nil_r. reflexivity.
+  Qed.
+
+  Lemma ssim_let : forall x e, esim e -> ssim (SLet x e).
+  Proof.
+    intros x e IHe r IHr lp st st' k outer cur HF Hs Hc.
+    rewrite f2b_cons in HF. apply andb_prop in HF. destruct HF as [HFe HFr]. cbn [f2s] in HFe.
+    apply andb_prop in HFe. destruct HFe as [HFe _].
+    cbn [compile_statements] in Hc. apply bind_ok in Hc. destruct Hc as [st2 [H2 Hc]].
+    rewrite cs_let, Hs, define_stab in H2.
+    set (st0 := set_symbols st (stab (S k) outer (cur ++ [x]))) in *.
+    apply bind_ok in H2. destruct H2 as [st1 [H1 H2]]. unfold scoped in H2. cbn [s_scope] in H2.
+    destruct (IHe false st0 st1 (S k) outer (cur ++ [x]) HFe eq_refl H1) as [ce_e [nb_e [CFe0 Hsime]]].
+    pose proof (cfacts_in _ _ _ _ _ _ _ CFe0) as CFe.
+    destruct (cf_syms _ _ _ _ _ _ CFe) as [k1 Hs1].
+    destruct (cfacts_emit_sym _ _ _ _ outer (cur ++ [x]) k1 Hs1 H2) as [Hr CFs]. cbn [s_index] in Hr, CFs.
+    set (n := length (flat outer cur)) in *. set (idx := Z.of_nat n) in *.
+    pose proof (cfacts_trans _ _ _ _ _ _ _ _ _ _ CFe CFs) as CFh. rewrite app_nil_r in CFh.
+    set (names := flat outer cur) in *.
+    apply (cons_sim (SLet x e) r false
+             (fun f m => xbind (xeval orc f (names ++ [x]) e m) (fun v m1 => XOk VNull (set_global_m n v m1)))
+             st st2 st' outer cur
+             (ce_e ++ [byte_of_opcode OSetGlobal; idx mod 256; (idx / 256) mod 256]) nb_e lp);
+      try assumption; try reflexivity.
+    - unfold last_instruction_is. rewrite (emit_sym_last _ _ _ _ H2). reflexivity.
+    - split; [intros N; discriminate N|].
+      intros prog lexit E Hle Hst fuel s Hip. unfold canon in E.
+      rewrite <- (app_nil_r nb_e) in E.
+      destruct (env_split prog st st1 st2 ce_e _ nb_e [] lexit (code_len st2) (cfacts_len _ _ _ _ _ _ CFe)
+                  (cf_brk _ _ _ _ _ _ CFe) (cf_brk _ _ _ _ _ _ CFs) (cext_cfacts _ _ _ _ _ _ CFs) E) as [Ee Es].
+      specialize (Hsime prog lexit (env_in _ _ _ _ _ _ _ Ee) Hle Hst fuel s Hip).
+      change (cur_start (c_loops st0)) with (cur_start (c_loops st)) in Hsime.
+      rewrite flat_snoc in Hsime. fold names in Hsime.
+      destruct (xeval orc fuel (names ++ [x]) e (mst_of s)) as [v m1|m1|m1|e1|y|] eqn:E1; cbn [xbind];
+        try exact Hsime; try (nosig_contra fuel e (names ++ [x]) (mst_of s) HFe E1).
+      cbn [sim2 sim_l] in *. destruct Hsime as [fin1 Hsime].
+      set (sa := setx s (v :: v_stack s) (v_slen s + 1) (code_len st1) m1 fin1) in *.
+      exists fin1. apply (reaches_trans orc prog s sa _ Hsime). apply reaches_step.
+      destruct Es as [Esc _ _]. cbn [brk_holes flat_map] in Esc.
+      pose proof (code_x_at3 _ _ _ _ _ _ _ Esc (holes_free_nil _ _)) as Hat.
+      rewrite (step_set_global orc prog sa idx v (v_stack s) [] Hat Hr eq_refl). f_equal. f_equal.
+      pose proof (cfacts_len _ _ _ _ _ _ CFs) as Ls. rewrite zlength3 in Ls.
+      subst sa idx. unfold setm, setx, mst_of, set_global_m. vmcbn2. rewrite Nat2Z.id, Ls. f_equal; lia.
+    - intros f last m. rewrite xs_let. cbn [decl_names]. rewrite flat_snoc. fold names. fold n.
+      destruct (xeval orc f (names ++ [x]) e m); reflexivity.
+  Qed.
+
+
+  Lemma break_last : forall st st', compile_statement SBreak st = Ok st' -> c_last st' = Some OJump.
+  Proof.
+    intros st st' H. cbn [compile_statement] in H. cbn [emit_u16 emit_opcode c_loops] in H.
+    destruct (rev (c_loops st)); [discriminate H|]. inversion H; subst. reflexivity.
+  Qed.
+
+  Lemma continue_last : forall st st', compile_statement SContinue st = Ok st' -> c_last st' = Some OJump.
+  Proof.
+    intros st st' H. cbn [compile_statement] in H. cbn [emit_opcode c_loops] in H.
+    destruct (rev (c_loops st)); [discriminate H|]. apply bind_ok in H. destruct H as [pos [_ H]].
+    inversion H; subst. reflexivity.
+  Qed.
+
+  Lemma ssim_break : ssim SBreak.
+  Proof.
+    intros r IHr lp st st' k outer cur HF Hs Hc.
+    rewrite f2b_cons in HF. apply andb_prop in HF. destruct HF as [_ HFr].
+    cbn [compile_statements] in Hc. apply bind_ok in Hc. destruct Hc as [st2 [H2 Hc]].
+    pose proof (break_last _ _ H2) as Hlast.
+    destruct (break_innermost _ _ H2) as [outer_l [ctx [Hl [Hl2 [Hcode [Hsy Hk]]]]]].
+    set (ip := code_len st + 1) in *.
+    assert (code_len st2 = code_len st + 4) as L2.
+    { rewrite (code_len_app _ _ _ Hcode). reflexivity. }
+    assert (cfacts st st2 outer cur break_code [ip]) as CFh.
+    { constructor.
+      - exists k. congruence.
+      - exact Hcode.
+      - apply cext_eq. exact Hk.
+      - rewrite Hl2, Hl, add_breaks_snoc. reflexivity.
+      - intros N. rewrite N in Hl. destruct outer_l; discriminate Hl.
+      - cbn [brk_ok]. unfold ip. lia. }
+    apply (cons_sim SBreak r false (fun f m => XBrk m) st st2 st' outer cur break_code [ip] lp);
+      try assumption; try reflexivity.
+    - cbn [decl_names]. rewrite app_nil_r. exact CFh.
+    - unfold last_instruction_is. rewrite Hlast. reflexivity.
+    - split; [intros N; discriminate N|].
+      intros prog lexit [E1 _ E3] Hle _ fuel s Hip. cbn [sim_l]. unfold canon in E1.
+      destruct E1 as [E0 E1]. rewrite <- Hip in E1.
+      assert (~ In (v_ip s) (brk_holes [ip])) as Hn0.
+      { cbn [brk_holes flat_map app In]. unfold ip. rewrite Hip. lia. }
+      assert (~ In (v_ip s + 1) (brk_holes [ip])) as Hn1.
+      { cbn [brk_holes flat_map app In]. unfold ip. rewrite Hip. lia. }
+      pose proof (E1 0%nat _ eq_refl) as B0. rewrite Z.add_0_r in B0. specialize (B0 Hn0).
+      pose proof (E1 1%nat _ eq_refl Hn1) as B1. change (Z.of_nat 1) with 1 in B1.
+      destruct (E3 ip (or_introl eq_refl)) as [B2 B3].
+      exists (v_final s).
+      pose proof (step_null orc prog s [] (code_at_bytes1 _ _ _ B0)) as Hstep1.
+      apply (reaches_trans orc prog s _ _ (reaches_step orc prog _ _ Hstep1)).
+      set (sa := setm s (VNull :: v_stack s) (v_slen s + 1) (v_ip s + 1) (mst_of s)) in *.
+      assert (ip = v_ip sa) as Hipa by (unfold ip; rewrite <- Hip; reflexivity).
+      rewrite Hipa in B2, B3. change (v_ip s + 1) with (v_ip sa) in B1.
+      apply reaches_step. rewrite (step_jump orc prog sa lexit [] (code_at_bytes3 _ _ _ _ _ B1 B2 B3) Hle).
+      reflexivity.
+  Qed.
+
+  Lemma ssim_continue : ssim SContinue.
+  Proof.
+    intros r IHr lp st st' k outer cur HF Hs Hc.
+    rewrite f2b_cons in HF. apply andb_prop in HF. destruct HF as [_ HFr].
+    cbn [compile_statements] in Hc. apply bind_ok in Hc. destruct Hc as [st2 [H2 Hc]].
+    pose proof (continue_last _ _ H2) as Hlast.
+    destruct (continue_innermost _ _ H2) as [outer_l [ctx [Hl [Hl2 [Hlt [Hcode [Hsy Hk]]]]]]].
+    assert (cur_start (c_loops st) = l_start ctx) as Hcs by (rewrite Hl; apply cur_start_snoc).
+    set (T := l_start ctx) in *.
+    pose proof (cfacts_emit st st2 outer cur k _ Hs Hsy Hk Hl2 Hcode) as CFh.
+    apply (cons_sim SContinue r false (fun f m => XCnt m) st st2 st' outer cur
+             [byte_of_opcode ONull; byte_of_opcode OJump; T mod 256; (T / 256) mod 256] [] lp);
+      try assumption; try reflexivity.
+    - cbn [decl_names]. rewrite app_nil_r. exact CFh.
+    - unfold last_instruction_is. rewrite Hlast. reflexivity.
+    - split; [intros N; discriminate N|].
+      intros prog lexit [E1 _ _] _ Hst fuel s Hip. cbn [sim_l]. unfold canon in E1.
+      cbn [brk_holes flat_map] in E1. rewrite <- Hip in E1.
+      change [byte_of_opcode ONull; byte_of_opcode OJump; T mod 256; (T / 256) mod 256]
+        with ([byte_of_opcode ONull] ++ [byte_of_opcode OJump; T mod 256; (T / 256) mod 256]) in E1.
+      apply code_x_app in E1. destruct E1 as [Ea Eb].
+      exists (v_final s).
+      pose proof (step_null orc prog s [] (code_x_at1 _ _ _ _ _ Ea (fun x => x))) as Hstep1.
+      apply (reaches_trans orc prog s _ _ (reaches_step orc prog _ _ Hstep1)).
+      set (sa := setm s (VNull :: v_stack s) (v_slen s + 1) (v_ip s + 1) (mst_of s)) in *.
+      change (v_ip s + zlength [byte_of_opcode ONull]) with (v_ip sa) in Eb.
+      assert (0 <= T < 65536) as RT by (rewrite <- Hcs; change (2 ^ 16) with 65536 in Hlt; rewrite Hcs; lia).
+      apply reaches_step.
+      rewrite (step_jump orc prog sa T [] (code_x_at3 _ _ _ _ _ _ _ Eb (holes_free_nil _ _)) RT).
+      rewrite Hcs. reflexivity.
+  Qed.
+
+  Lemma ssim_block : forall b, lsim b -> ssim (SBlock b).
+  Proof.
+    intros b IHb r IHr lp st st' k outer cur HF Hs Hc.
+    rewrite f2b_cons in HF. apply andb_prop in HF. destruct HF as [HFb HFr]. rewrite f2s_block in HFb.
+    cbn [compile_statements] in Hc. apply bind_ok in Hc. destruct Hc as [st2 [H2 Hc]].
+    rewrite cs_block in H2. set (names := flat outer cur) in *.
+    destruct b as [|s0 b'].
+    - (* the empty block: Null; Pop *)
+      cbn [is_nil] in H2. inversion H2; subst st2; clear H2.
+      pose proof (cfacts_emit_opcode ONull st outer cur k Hs) as CF1.
+      pose proof (cfacts_emit_opcode OPop (emit_opcode ONull st) outer cur k Hs) as CF2.
+      pose proof (cfacts_trans _ _ _ _ _ _ _ _ _ _ CF1 CF2) as CFh. cbn [app] in CFh.
+      apply (cons_sim (SBlock []) r true (fun f m => xstmts orc f names [] VNull m)
+               st (emit_opcode OPop (emit_opcode ONull st)) st' outer cur
+               [byte_of_opcode ONull; byte_of_opcode OPop] [] lp);
+        try assumption; try reflexivity.
+      + cbn [decl_names]. rewrite app_nil_r. exact CFh.
+      + split.
+        * intros _. split; [exists [byte_of_opcode ONull]; reflexivity|]. cbn [brk_ok].
+          rewrite !code_len_emit_opcode. lia.
+        * intros prog lexit [E1 _ _] _ _ fuel s Hip. destruct fuel as [|f]; [exact I|]. rewrite xs_nil.
+          cbn [sim_l]. unfold canon in E1. cbn [removelast brk_holes flat_map] in E1. rewrite <- Hip in E1.
+          exists (v_final s). apply reaches_step.
+          rewrite (step_null orc prog s [] (code_x_at1 _ _ _ _ _ E1 (fun x => x))), setm_setx.
+          f_equal. f_equal. apply setx_eq; [reflexivity|]. rewrite !code_len_emit_opcode, Hip. lia.
+      + intros f last m. rewrite xs_block. cbn [decl_names]. rewrite app_nil_r. reflexivity.
+    - cbn [is_nil] in H2. apply bind_ok in H2. destruct H2 as [st1 [H1 H2]]. inversion H2; subst st2; clear H2.
+      set (st0 := set_symbols st (enter_scope (c_symbols st))) in *.
+      assert (c_symbols st0 = stab k (outer ++ [cur]) []) as Hs0
+        by (unfold st0; cbn [set_symbols c_symbols]; rewrite Hs; reflexivity).
+      destruct (IHb lp st0 st1 k (outer ++ [cur]) [] HFb Hs0 H1) as [ce [nb [CFb [Hlastb [Hpopb Hsimb]]]]].
+      destruct (cf_syms _ _ _ _ _ _ CFb) as [k1 S1]. cbn [app] in S1.
+      set (st1' := set_symbols st1 (leave_scope (c_symbols st1))) in *.
+      assert (leave_scope (c_symbols st1) = stab k1 outer cur) as Hleave by (rewrite S1; apply leave_stab).
+      pose proof (cfacts_out _ _ _ _ _ outer cur k1 _ _ (cfacts_in _ _ _ _ _ _ _ CFb) Hleave) as CFh.
+      fold st1' in CFh.
+      apply (cons_sim (SBlock (s0 :: b')) r (ends_pop (s0 :: b'))
+               (fun f m => xstmts orc f names (s0 :: b') VNull m) st st1' st' outer cur ce nb lp);
+        try assumption.
+      + cbn [decl_names]. rewrite app_nil_r. exact CFh.
+      + rewrite <- Hlastb by discriminate. reflexivity.
+      + rewrite stmt_pop_block. reflexivity.
+      + split.
+        * intros Ep. exact (Hpopb Ep).
+        * intros prog lexit E Hle Hst fuel s Hip.
+          specialize (Hsimb prog lexit (env_in _ _ _ _ _ _ _ (env_out _ _ _ _ _ _ _ E)) Hle Hst fuel s VNull Hip).
+          rewrite flat_enter in Hsimb. exact Hsimb.
+      + intros f last m. rewrite xs_block. cbn [decl_names]. rewrite app_nil_r. reflexivity.
+  Qed.
+
+
+  (** ** The patches at the end of a loop *)
+
+  Definition put2 (T ip : Z) (code : list Z) : list Z :=
+    replace_nth (Z.to_nat ip + 2) ((T / 256) mod 256) (replace_nth (Z.to_nat ip + 1) (T mod 256) code).
+
+  Lemma wt_cons : forall T ip r code, write_targets T (ip :: r) code = write_targets T r (put2 T ip code).
+  Proof. reflexivity. Qed.
+
+  Lemma put2_length : forall T ip code, length (put2 T ip code) = length code.
+  Proof. intros. unfold put2. rewrite !length_replace_nth'. reflexivity. Qed.
+
+  Lemma wt_length : forall T nb code, length (write_targets T nb code) = length code.
+  Proof.
+    intros T nb. induction nb as [|ip r IH]; intros code; [reflexivity|].
+    rewrite wt_cons, IH. apply put2_length.
+  Qed.
+
+  Lemma put2_other : forall T ip code q, q <> (Z.to_nat ip + 1)%nat -> q <> (Z.to_nat ip + 2)%nat ->
+    nth_error (put2 T ip code) q = nth_error code q.
+  Proof.
+    intros T ip code q H1 H2. unfold put2.
+    rewrite !nth_error_replace_nth_other by (intros N; lia). reflexivity.
+  Qed.
+
+  Lemma wt_other : forall T nb code q,
+    (forall ip, In ip nb -> q <> (Z.to_nat ip + 1)%nat /\ q <> (Z.to_nat ip + 2)%nat) ->
+    nth_error (write_targets T nb code) q = nth_error code q.
+  Proof.
+    intros T nb. induction nb as [|ip r IH]; intros code q H; [reflexivity|].
+    rewrite wt_cons, IH.
+    - destruct (H ip (or_introl eq_refl)) as [H1 H2]. apply put2_other; assumption.
+    - intros ip' Hin. apply H. right. exact Hin.
+  Qed.
+
+  Lemma wt_at : forall T nb lo hi code ip, brk_ok lo nb hi -> 0 <= lo -> hi <= Z.of_nat (length code) ->
+    In ip nb ->
+    nth_error (write_targets T nb code) (Z.to_nat ip + 1) = Some (T mod 256) /\
+    nth_error (write_targets T nb code) (Z.to_nat ip + 2) = Some ((T / 256) mod 256).
+  Proof.
+    intros T nb. induction nb as [|ip0 r IH]; intros lo hi code ip B Hlo Hhi Hin; [destruct Hin|].
+    cbn [brk_ok] in B. destruct B as [B0 Br]. rewrite wt_cons. destruct Hin as [->|Hin].
+    - pose proof (brk_ok_le _ _ _ Br) as Hle.
+      assert (forall ip', In ip' r -> ip + 3 <= ip') as Hafter.
+      { intros ip' Hi. exact (proj1 (brk_ok_in _ _ _ _ Br Hi)). }
+      rewrite !wt_other.
+      + unfold put2. split.
+        * rewrite nth_error_replace_nth_other by lia. apply nth_error_replace_nth_same. lia.
+        * apply nth_error_replace_nth_same. rewrite length_replace_nth'. lia.
+      + intros ip' Hi. specialize (Hafter ip' Hi). lia.
+      + intros ip' Hi. specialize (Hafter ip' Hi). lia.
+    - apply (IH (ip0 + 3) hi); [exact Br|lia|rewrite put2_length; exact Hhi|exact Hin].
+  Qed.
+
+  Lemma wt_prefix : forall T nb a b, (forall ip, In ip nb -> (length a <= Z.to_nat ip)%nat) ->
+    exists b', write_targets T nb (a ++ b) = a ++ b' /\ length b' = length b.
+  Proof.
+    intros T nb. induction nb as [|ip r IH]; intros a b H.
+    - exists b. split; reflexivity.
+    - rewrite wt_cons. pose proof (H ip (or_introl eq_refl)) as Hip.
+      assert (put2 T ip (a ++ b) = a ++ put2 T (ip - Z.of_nat (length a)) b) as ->.
+      { unfold put2.
+        replace (Z.to_nat ip + 1)%nat with (length a + (Z.to_nat (ip - Z.of_nat (length a)) + 1))%nat by lia.
+        replace (Z.to_nat ip + 2)%nat with (length a + (Z.to_nat (ip - Z.of_nat (length a)) + 2))%nat by lia.
+        rewrite !replace_nth_app2. reflexivity. }
+      destruct (IH a (put2 T (ip - Z.of_nat (length a)) b) (fun ip' Hi => H ip' (or_intror Hi))) as [b' [E L]].
+      exists b'. split; [exact E|]. rewrite L. apply put2_length.
+  Qed.
+
+
+  (** ** zolang *)
+
+  (* what the machine does from the loop head with `lastv` on top of the stack of state s *)
+  Definition loop_post (prog : program) (s sh : vm) (lexit : Z) (r : xres val) : Prop :=
+    match r with
+    | XOk v m' => exists fin', reaches orc prog sh (setx s (v :: v_stack s) (v_slen s + 1) lexit m' fin')
+    | XBrk _ | XCnt _ => False
+    | XErr k => stops orc prog sh (Err k) (v_out s)
+    | XFault f => stops orc prog sh (Fault f) (v_out s)
+    | XFuel => True
+    end.
+
+  Lemma esim_while : forall c body, esim c -> lsim body -> esim (EWhile c body).
+  Proof.
+    intros c body IHc IHb lp st st' k outer cur HF Hs Hc.
+    rewrite f2e_while in HF. apply andb_prop in HF. destruct HF as [Hfc Hfb].
+    rewrite ce_while in Hc. cbv zeta in Hc.
+    set (st1 := emit_opcode ONull st) in *.
+    pose proof (code_len_emit_opcode ONull st) as L1. fold st1 in L1.
+    set (start := code_len st1) in *.
+    set (st2 := set_loops st1 (c_loops st1 ++ [mkLoop start []])) in *.
+    apply bind_ok in Hc. destruct Hc as [st3 [H3 Hc]].
+    apply bind_ok in Hc. destruct Hc as [st5 [H5 Hc]].
+    apply bind_ok in Hc. destruct Hc as [back [Hb Hc]].
+    apply bind_ok in Hc. destruct Hc as [target [Ht Hc]].
+    apply bind_ok in Hc. destruct Hc as [st8 [H8 Hc]].
+    assert (c_symbols st2 = stab k outer cur) as Hs2 by exact Hs.
+    destruct (IHc false st2 st3 k outer cur Hfc Hs2 H3) as [ce_c [nb_c [CF3 Hsimc]]].
+    destruct (cf_syms _ _ _ _ _ _ CF3) as [k3 Hs3].
+    set (PHlo := JUMP_PLACEHOLDER mod 256) in *. set (PHhi := (JUMP_PLACEHOLDER / 256) mod 256) in *.
+    set (st4 := emit_opcode OPop (emit_u16 JUMP_PLACEHOLDER (emit_opcode OJumpIfFalse st3))) in *.
+    assert (cfacts st3 st4 outer cur [byte_of_opcode OJumpIfFalse; PHlo; PHhi; byte_of_opcode OPop] []) as CF34.
+    { apply (cfacts_emit _ _ outer cur k3); auto. unfold st4. cbn [emit_opcode emit_u16 c_code].
+      rewrite <- !app_assoc. reflexivity. }
+    assert (c_symbols st4 = stab k3 outer cur) as Hs4 by exact Hs3.
+    destruct (bv_sim body IHb true st4 st5 k3 outer cur Hfb Hs4 H5) as [ce_b [nb_b [CF5 Hsimb]]].
+    destruct (cf_syms _ _ _ _ _ _ CF5) as [k5 Hs5].
+    destruct (operand16_code_len _ _ Hb) as [-> Rs]. clear Hb.
+    set (st7 := emit_u16 start (emit_opcode OJump st5)) in *.
+    pose proof (cfacts_emit_u16op OJump start st5 outer cur k5 Hs5) as CF57. fold st7 in CF57.
+    destruct (operand16_code_len _ _ Ht) as [-> Re]. clear Ht.
+    set (lexit_in := code_len st7) in *.
+    pose proof (cfacts_trans _ _ _ _ _ _ _ _ _ _ CF3 (cfacts_trans _ _ _ _ _ _ _ _ _ _ CF34
+                 (cfacts_trans _ _ _ _ _ _ _ _ _ _ CF5 CF57))) as CF27.
+    set (jmp3 := [byte_of_opcode OJump; start mod 256; (start / 256) mod 256]) in *.
+    set (nbi := nb_c ++ nb_b).
+    assert (cfacts st2 st7 outer cur
+              (ce_c ++ byte_of_opcode OJumpIfFalse :: PHlo :: PHhi :: (byte_of_opcode OPop :: ce_b ++ jmp3)) nbi) as CF27'.
+    { apply (cfacts_eq _ _ _ _ _ _ _ _ CF27); unfold nbi; cbn [app]; rewrite ?app_nil_r; reflexivity. }
+    clear CF27.
+    pose proof (cfacts_len _ _ _ _ _ _ CF3) as L3. rewrite L3 in H8.
+    destruct (cfacts_patch_at _ _ _ _ _ _ _ _ _ _ _ lexit_in CF27' H8) as [CF28 [L8 _]].
+    set (jif4 := [byte_of_opcode OJumpIfFalse; lexit_in mod 256; (lexit_in / 256) mod 256; byte_of_opcode OPop]) in *.
+    set (W8 := ce_c ++ jif4 ++ ce_b ++ jmp3).
+    assert (cfacts st2 st8 outer cur W8 nbi) as CF28' by exact CF28. clear CF28.
+    (* the innermost context is popped *)
+    pose proof (cf_loops _ _ _ _ _ _ CF28') as Lp8.
+    assert (c_loops st2 = c_loops st ++ [mkLoop start []]) as Lp2 by reflexivity.
+    rewrite Lp2, add_breaks_snoc in Lp8. cbn [l_start l_breaks app] in Lp8.
+    rewrite Lp8, rev_unit in Hc. cbn [l_breaks] in Hc. rewrite rev_involutive in Hc.
+    pose proof (cf_brk _ _ _ _ _ _ CF28') as B28.
+    assert (0 <= code_len st2) as Hpos2 by apply code_len_nonneg.
+    assert (Forall (fun ip => 0 <= ip) nbi) as Hposn.
+    { apply Forall_forall. intros ip Hin. destruct (brk_ok_in _ _ _ _ B28 Hin). lia. }
+    destruct (patch_breaks_spec _ _ _ Hposn Hc) as [P1 [P2 [P3 [P4 [P5 [_ P7]]]]]].
+    cbn [set_loops c_symbols c_constants c_loops c_last c_code] in P1, P2, P3, P5, P7.
+    assert (code_len (set_loops st8 (c_loops st)) = lexit_in) as Lx by (unfold lexit_in; rewrite <- L8; reflexivity).
+    rewrite Lx in P7.
+    pose proof (cf_code _ _ _ _ _ _ CF28') as C8.
+    assert (c_code st2 = c_code st ++ [byte_of_opcode ONull]) as C2 by reflexivity.
+    rewrite C2, <- app_assoc in C8. set (W8f := [byte_of_opcode ONull] ++ W8) in *.
+    assert (code_len st2 = code_len st + 1) as L2 by exact L1.
+    assert (forall ip, In ip nbi -> (length (c_code st) <= Z.to_nat ip)%nat) as Hpre.
+    { intros ip Hin. destruct (brk_ok_in _ _ _ _ B28 Hin) as [Q _]. unfold code_len, zlength in L2, Q. lia. }
+    rewrite C8 in P7. destruct (wt_prefix lexit_in nbi (c_code st) W8f Hpre) as [W' [EW' LW']].
+    rewrite EW' in P7.
+    assert (code_len st' = lexit_in) as L'.
+    { rewrite <- Lx. apply code_len_length. exact P5. }
+    (* constants *)
+    assert (cext st2 st8) as X28 by exact (cext_cfacts _ _ _ _ _ _ CF28').
+    assert (cext st8 st') as X8' by (apply cext_eq; exact P2).
+    assert (cext st2 st') as X2' by exact (cext_trans _ _ _ X28 X8').
+    exists W', []. split.
+    { constructor.
+      - destruct (cf_syms _ _ _ _ _ _ CF28') as [k8 Hs8]. exists k8. congruence.
+      - exact P7.
+      - exact (cext_trans st st2 st' (cext_eq st st2 eq_refl) X2').
+      - rewrite add_breaks_nil. exact P3.
+      - reflexivity.
+      - cbn [brk_ok]. rewrite L'. unfold lexit_in. rewrite (cfacts_len _ _ _ _ _ _ CF57).
+        pose proof (brk_ok_le _ _ _ (cf_brk _ _ _ _ _ _ CF5)). pose proof (brk_ok_le _ _ _ (cf_brk _ _ _ _ _ _ CF34)).
+        pose proof (brk_ok_le _ _ _ (cf_brk _ _ _ _ _ _ CF3)). unfold jmp3. rewrite zlength3. lia. }
+    (* the run *)
+    intros prog lexit E Hle Hst fuel s Hip. destruct fuel as [|f]; [exact I|].
+    rewrite xe_while. set (names := flat outer cur) in *.
+    destruct E as [[E0 Ecode] Econsts _].
+    (* the final program, seen as the unpatched loop code with the stop jumps pending *)
+    assert (forall i b, nth_error W8f i = Some b -> ~ In (code_len st + Z.of_nat i) (brk_holes nbi) ->
+                        byte_at prog (code_len st + Z.of_nat i) = Some b) as Hbytes.
+    { intros i b Hi Hn. apply Ecode; [|intros []].
+      assert (nth_error (c_code st') (length (c_code st) + i) = Some b) as Hc'.
+      { rewrite P7, <- EW'. rewrite wt_other.
+        - rewrite nth_error_app2 by lia. replace (length (c_code st) + i - length (c_code st))%nat with i by lia.
+          exact Hi.
+        - intros ip Hin. pose proof (Hpre ip Hin) as Q. destruct (brk_ok_in _ _ _ _ B28 Hin) as [Q1 _].
+          assert (~ (code_len st + Z.of_nat i = ip + 1 \/ code_len st + Z.of_nat i = ip + 2)) as Hn'.
+          { intros Hor. apply Hn. apply in_brk_holes. exists ip. split; [exact Hin|exact Hor]. }
+          unfold code_len, zlength in Hn'. lia. }
+      rewrite P7, nth_error_app2 in Hc' by lia.
+      replace (length (c_code st) + i - length (c_code st))%nat with i in Hc' by lia. exact Hc'. }
+    assert (brk_target prog nbi lexit_in) as Htarget.
+    { intros ip Hin. destruct (brk_ok_in _ _ _ _ B28 Hin) as [Q1 Q2]. pose proof (Hpre ip Hin) as Q.
+      assert (lexit_in <= Z.of_nat (length (c_code st ++ W8f))) as Hhi.
+      { rewrite <- C8. unfold lexit_in. rewrite <- L8. unfold code_len, zlength. lia. }
+      rewrite L8 in B28. fold lexit_in in B28.
+      destruct (wt_at lexit_in nbi _ _ (c_code st ++ W8f) ip B28 Hpos2 Hhi Hin) as [A1 A2].
+      rewrite EW' in A1, A2.
+      rewrite nth_error_app2 in A1, A2 by lia.
+      pose proof (Ecode _ _ A1 (fun x => match x with end)) as B1.
+      pose proof (Ecode _ _ A2 (fun x => match x with end)) as B2.
+      unfold code_len, zlength in B1, B2, L2, Q1.
+      replace (Z.of_nat (length (c_code st)) + Z.of_nat (Z.to_nat ip + 1 - length (c_code st))) with (ip + 1) in B1 by lia.
+      replace (Z.of_nat (length (c_code st)) + Z.of_nat (Z.to_nat ip + 2 - length (c_code st))) with (ip + 2) in B2 by lia.
+      split; assumption. }
+    assert (env_ok prog st st' W8f ([] ++ nbi) lexit_in) as E8.
+    { constructor; [split; [exact E0|exact Hbytes]|exact Econsts|exact Htarget]. }
+    (* the pieces *)
+    pose proof (cf_brk _ _ _ _ _ _ CF3) as B3. pose proof (cf_brk _ _ _ _ _ _ CF5) as B5.
+    pose proof (cfacts_len _ _ _ _ _ _ CF34) as L4. pose proof (cfacts_len _ _ _ _ _ _ CF5) as L5.
+    pose proof (cfacts_len _ _ _ _ _ _ CF57) as L7. unfold jmp3 in L7. rewrite zlength3 in L7.
+    change (zlength [byte_of_opcode OJumpIfFalse; PHlo; PHhi; byte_of_opcode OPop]) with 4 in L4.
+    assert (brk_ok (code_len st2) nbi (code_len st5)) as B25.
+    { apply (brk_ok_app _ _ _ (code_len st3) _ B3). apply (brk_ok_widen _ _ _ _ _ B5); lia. }
+    assert (code_len st2 = code_len st + zlength [byte_of_opcode ONull]) as L2' by exact L2.
+    destruct (env_split prog st st2 st' [byte_of_opcode ONull] W8 [] nbi lexit_in _ L2'
+                ltac:(cbn [brk_ok]; lia) B25 X2' E8) as [Enull E2].
+    assert (0 <= code_len st2 + zlength ce_c) as Hp8 by (rewrite <- L3; apply code_len_nonneg).
+    assert (cext st3 st') as X3'.
+    { apply (cext_trans _ st4); [exact (cext_cfacts _ _ _ _ _ _ CF34)|].
+      apply (cext_trans _ st5); [exact (cext_cfacts _ _ _ _ _ _ CF5)|].
+      apply (cext_trans _ st7); [exact (cext_cfacts _ _ _ _ _ _ CF57)|].
+      apply (cext_trans _ st8); [apply cext_eq|exact X8'].
+      exact (proj1 (proj2 (change_jump_spec _ _ _ _ Hp8 H8))). }
+    assert (cext st4 st') as X4'.
+    { destruct X3' as [kx [A B]]. exists kx. split; [exact A|exact B]. }
+    assert (cext st5 st') as X5'.
+    { apply (cext_trans _ st7); [exact (cext_cfacts _ _ _ _ _ _ CF57)|].
+      apply (cext_trans _ st8); [apply cext_eq|exact X8'].
+      exact (proj1 (proj2 (change_jump_spec _ _ _ _ Hp8 H8))). }
+    assert (brk_ok (code_len st3) nb_b (code_len st5)) as B35 by (apply (brk_ok_widen _ _ _ _ _ B5); lia).
+    destruct (env_split prog st2 st3 st' ce_c _ nb_c nb_b lexit_in _ L3 B3 B35 X3' E2) as [Ec E3].
+    assert (code_len st4 = code_len st3 + zlength jif4) as L4' by exact L4.
+    destruct (env_split prog st3 st4 st' jif4 _ [] nb_b lexit_in _ L4'
+                ltac:(cbn [brk_ok]; lia) B5 X4' E3) as [Ejif E4].
+    rewrite <- (app_nil_r nb_b) in E4.
+    destruct (env_split prog st4 st5 st' ce_b jmp3 nb_b [] lexit_in (code_len st') L5 B5
+                ltac:(cbn [brk_ok]; lia) X5' E4) as [Eb Ejmp].
+    (* instructions of the loop skeleton *)
+    destruct Enull as [Enullc _ _]. cbn [brk_holes flat_map] in Enullc.
+    pose proof (code_x_at1 _ _ _ _ _ Enullc (fun x => x)) as Hnull.
+    destruct Ejif as [Ejifc _ _]. cbn [brk_holes flat_map] in Ejifc.
+    change jif4 with ([byte_of_opcode OJumpIfFalse; lexit_in mod 256; (lexit_in / 256) mod 256] ++ [byte_of_opcode OPop]) in Ejifc.
+    apply code_x_app in Ejifc. destruct Ejifc as [Ejc Epc]. rewrite zlength3 in Epc.
+    pose proof (code_x_at3 _ _ _ _ _ _ _ Ejc (holes_free_nil _ _)) as Hjif.
+    pose proof (code_x_at1 _ _ _ _ _ Epc (fun x => x)) as Hpop.
+    destruct Ejmp as [Ejmpc _ _]. cbn [brk_holes flat_map] in Ejmpc.
+    pose proof (code_x_at3 _ _ _ _ _ _ _ Ejmpc (holes_free_nil _ _)) as Hjmp.
+    (* loop contexts of the pieces *)
+    assert (cur_start (c_loops st2) = start) as Cs2 by (rewrite Lp2; apply cur_start_snoc).
+    assert (cur_start (c_loops st4) = start) as Cs4.
+    { change (c_loops st4) with (c_loops st3). rewrite (cf_loops _ _ _ _ _ _ CF3), cur_start_add. exact Cs2. }
+    assert (0 <= start) as Hstart by lia.
+    (* the loop invariant *)
+    set (stk := v_stack s). set (n := v_slen s).
+    assert (forall fuel lastv m fin,
+              loop_post prog s (setx s (lastv :: stk) (n + 1) start m fin) lexit_in
+                        (xwhile orc fuel names c body lastv m)) as Hloop.
+    { induction fuel as [|f' IHf]; intros lastv m fin; [exact I|].
+      rewrite xw_step. set (sh := setx s (lastv :: stk) (n + 1) start m fin).
+      pose proof (Hsimc prog lexit_in Ec Re ltac:(rewrite Cs2; exact Hstart) f' sh eq_refl) as Hc1.
+      rewrite Cs2 in Hc1. unfold sh in Hc1 at 2. rewrite mst_of_setx in Hc1. fold names in Hc1.
+      destruct (xeval orc f' names c m) as [b m1|m1|m1|e|y|] eqn:E1; cbn [xbind loop_post];
+        try exact Hc1; try (nosig_contra f' c names m Hfc E1).
+      cbn [sim2] in Hc1. destruct Hc1 as [fin1 Hc1].
+      set (sa := setx sh (b :: v_stack sh) (v_slen sh + 1) (code_len st3) m1 fin1) in *.
+      pose proof (step_jif orc prog sa lexit_in b (lastv :: stk) [] Hjif Re eq_refl) as Hstepj.
+      destruct b as [|bb| | | | |];
+        try (cbn [loop_post]; apply (reaches_stops orc prog sh sa _ _ Hc1); apply (stops_now orc prog sa _ Hstepj)).
+      destruct bb.
+      - (* another iteration: Pop the previous value, run the body *)
+        set (sp := setm sa (lastv :: stk) (v_slen sa - 1) (v_ip sa + 3) (mst_of sa)) in *.
+        assert (code_at prog (v_ip sp) [byte_of_opcode OPop]) as Hpop' by exact Hpop.
+        pose proof (step_pop orc prog sp lastv stk [] Hpop' eq_refl) as Hstepp.
+        set (sb := setx s stk n (code_len st4) m1 lastv).
+        assert (mkVM stk (v_slen sp - 1) (v_globals sp) (v_frames sp) (v_ip sp + 1) (v_bp sp) lastv
+                     (v_heap sp) (v_gc sp) (v_out sp) = sb) as Esb.
+        { subst sp sa sh sb. unfold setm, setx, mst_of. vmcbn2. f_equal; lia. }
+        rewrite Esb in Hstepp.
+        assert (reaches orc prog sh sb) as Hsb.
+        { apply (reaches_trans orc prog sh sa _ Hc1).
+          apply (reaches_trans orc prog sa sp _ (reaches_step orc prog _ _ Hstepj)).
+          apply reaches_step. exact Hstepp. }
+        pose proof (Hsimb prog lexit_in Eb Re ltac:(rewrite Cs4; exact Hstart) f' sb eq_refl) as Hb1.
+        rewrite Cs4 in Hb1. unfold sb in Hb1 at 2. rewrite mst_of_setx in Hb1. fold names in Hb1.
+        destruct (xstmts orc f' names body VNull m1) as [v m2|m2|m2|e|y|]; cbn [sim2 loop_post] in *.
+        + destruct Hb1 as [fin2 Hb1].
+          set (sc := setx sb (v :: v_stack sb) (v_slen sb + 1) (code_len st5) m2 fin2) in *.
+          pose proof (step_jump orc prog sc start [] Hjmp Rs) as Hstepm.
+          assert (setm sc (v_stack sc) (v_slen sc) start (mst_of sc) = setx s (v :: stk) (n + 1) start m2 fin2) as Esc.
+          { subst sc sb. unfold setm, setx, mst_of. vmcbn2. reflexivity. }
+          rewrite Esc in Hstepm.
+          specialize (IHf v m2 fin2).
+          assert (reaches orc prog sh (setx s (v :: stk) (n + 1) start m2 fin2)) as Hback.
+          { apply (reaches_trans orc prog sh sb _ Hsb). apply (reaches_trans orc prog sb sc _ Hb1).
+            apply reaches_step. exact Hstepm. }
+          destruct (xwhile orc f' names c body v m2) as [v3 m3|m3|m3|e|y|]; cbn [loop_post] in *;
+            try contradiction; try exact I.
+          * destruct IHf as [fin3 IHf]. exists fin3. exact (reaches_trans orc prog _ _ _ Hback IHf).
+          * exact (reaches_stops orc prog _ _ _ _ Hback IHf).
+          * exact (reaches_stops orc prog _ _ _ _ Hback IHf).
+        + (* stop *)
+          destruct Hb1 as [fin2 Hb1]. exists fin2. exact (reaches_trans orc prog sh sb _ Hsb Hb1).
+        + (* volgende *)
+          destruct Hb1 as [fin2 Hb1].
+          specialize (IHf VNull m2 fin2).
+          assert (reaches orc prog sh (setx s (VNull :: stk) (n + 1) start m2 fin2)) as Hback
+            by exact (reaches_trans orc prog sh sb _ Hsb Hb1).
+          destruct (xwhile orc f' names c body VNull m2) as [v3 m3|m3|m3|e|y|]; cbn [loop_post] in *;
+            try contradiction; try exact I.
+          * destruct IHf as [fin3 IHf]. exists fin3. exact (reaches_trans orc prog _ _ _ Hback IHf).
+          * exact (reaches_stops orc prog _ _ _ _ Hback IHf).
+          * exact (reaches_stops orc prog _ _ _ _ Hback IHf).
+        + exact (reaches_stops orc prog sh sb _ _ Hsb Hb1).
+        + exact (reaches_stops orc prog sh sb _ _ Hsb Hb1).
+        + exact I.
+      - (* the condition is false: the loop's value is the value of the last iteration *)
+        exists fin1. apply (reaches_trans orc prog sh sa _ Hc1). apply reaches_step. rewrite Hstepj.
+        f_equal. f_equal. subst sa sh. unfold setm, setx, mst_of. vmcbn2. f_equal; lia. }
+    (* enter the loop *)
+    rewrite <- Hip in Hnull.
+    pose proof (step_null orc prog s [] Hnull) as Hstep0.
+    assert (setm s (VNull :: v_stack s) (v_slen s + 1) (v_ip s + 1) (mst_of s)
+            = setx s (VNull :: stk) (n + 1) start (mst_of s) (v_final s)) as Es0.
+    { unfold setm, setx, mst_of. vmcbn2. rewrite L1, Hip. reflexivity. }
+    rewrite Es0 in Hstep0.
+    specialize (Hloop f VNull (mst_of s) (v_final s)). rewrite L'.
+    destruct (xwhile orc f names c body VNull (mst_of s)) as [v3 m3|m3|m3|e|y|]; cbn [loop_post sim2] in *;
+      try contradiction; try exact I.
+    - destruct Hloop as [fin3 Hloop]. exists fin3.
+      exact (reaches_trans orc prog _ _ _ (reaches_step orc prog _ _ Hstep0) Hloop).
+    - exact (reaches_stops orc prog _ _ _ _ (reaches_step orc prog _ _ Hstep0) Hloop).
+    - exact (reaches_stops orc prog _ _ _ _ (reaches_step orc prog _ _ Hstep0) Hloop).
+  Qed.
+
+
+  (** ** All expressions and statements of the fragment *)
+
+  Lemma lsim_of_forall : forall l, Forall ssim l -> lsim l.
+  Proof. intros l H. induction H as [|s r Hs Hr IH]; [exact lsim_nil|exact (Hs r IH)]. Qed.
+
+  Lemma esim_outside : forall e, (forall lp, f2e lp e = false) -> esim e.
+  Proof. intros e H lp st st' k outer cur HF. rewrite H in HF. discriminate HF. Qed.
+
+  Theorem sim_all : (forall e, esim e) /\ (forall s, ssim s).
+  Proof.
+    apply expr_stmt_ind.
+    - intros l o r Hl Hr. exact (esim_infix l o r Hl Hr).
+    - intros o r Hr. exact (esim_prefix o r Hr).
+    - exact esim_int.
+    - intros x. apply esim_outside. reflexivity.
+    - exact esim_bool.
+    - intros c t alt Hc Ht Ha. apply (esim_if c t alt Hc (lsim_of_forall t Ht)).
+      destruct alt as [b|]; [exact (lsim_of_forall b Ha)|exact I].
+    - exact esim_ident.
+    - intros n ps body _. apply esim_outside. reflexivity.
+    - intros h args _ _. apply esim_outside. reflexivity.
+    - intros l r _ Hr. destruct l; try (apply esim_outside; reflexivity). exact (esim_assign s r Hr).
+    - intros s. apply esim_outside. reflexivity.
+    - intros vs _. apply esim_outside. reflexivity.
+    - intros b i _ _. apply esim_outside. reflexivity.
+    - intros c b Hc Hb. exact (esim_while c b Hc (lsim_of_forall b Hb)).
+    - intros n e He. exact (ssim_let n e He).
+    - intros e _ r _ lp st st' k outer cur HF. rewrite f2b_cons in HF. discriminate HF.
+    - intros e He. exact (ssim_expr e He).
+    - intros b Hb. exact (ssim_block b (lsim_of_forall b Hb)).
+    - exact ssim_break.
+    - exact ssim_continue.
+  Qed.
+
+  Theorem lsim_all : forall l, lsim l.
+  Proof. intros l. apply lsim_of_forall. apply Forall_forall. intros s _. apply (proj2 sim_all). Qed.
+
+
+  (** ** Values of the fragment are scalars; heap and collector are never touched *)
+
+  Definition sc_res (m : mst) (r : xres val) : Prop :=
+    match r with
+    | XOk v m' => scalar v = true /\ scalar_m m' /\ m_heap m' = m_heap m /\ m_gc m' = m_gc m
+    | XBrk m' | XCnt m' => scalar_m m' /\ m_heap m' = m_heap m /\ m_gc m' = m_gc m
+    | _ => True
+    end.
+
+  Lemma sc_res_bind : forall m (x : xres val) (k : val -> mst -> xres val),
+    sc_res m x ->
+    (forall a m1, scalar a = true -> scalar_m m1 -> m_heap m1 = m_heap m -> m_gc m1 = m_gc m -> sc_res m (k a m1)) ->
+    sc_res m (xbind x k).
+  Proof.
+    intros m x k Hx Hk. destruct x as [a m1|m1|m1|e|y|]; cbn [xbind sc_res] in *; auto.
+    destruct Hx as [A [B [C D]]]. apply Hk; assumption.
+  Qed.
+
+  Lemma sc_res_shift : forall m m1 r, m_heap m1 = m_heap m -> m_gc m1 = m_gc m -> sc_res m1 r -> sc_res m r.
+  Proof.
+    intros m m1 r H1 H2 H. destruct r as [a m2|m2|m2|e|y|]; cbn [sc_res] in *; auto.
+    - destruct H as [A [B [C D]]]. repeat split; congruence.
+    - destruct H as [B [C D]]. repeat split; congruence.
+    - destruct H as [B [C D]]. repeat split; congruence.
+  Qed.
+
+  Lemma sc_lift_sres : forall m sr, sres_ok sr -> scalar_m m -> sc_res m (xlift_h m (lift_sres (m_heap m) sr)).
+  Proof.
+    intros m sr Hok Hm. destruct sr as [z|b|x|]; cbn [sres_ok lift_sres xlift_h sc_res fst] in *; try contradiction;
+      try exact I; rewrite with_new_m_same; repeat split; auto.
+  Qed.
+
+  Lemma scalar_lit : forall z, lit_ok z = true -> scalar (VInt z) = true.
+  Proof.
+    intros z H. cbn [scalar]. unfold lit_ok in H. unfold in_int_range.
+    apply andb_prop in H. destruct H as [H0 H1]. apply Z.leb_le in H0. rewrite H1.
+    pose proof MIN_INT_val. apply andb_true_intro. split; [apply Z.leb_le; lia|reflexivity].
+  Qed.
+
+  Lemma xeval_scalar : forall fuel,
+    (forall lp e names m, f2e lp e = true -> scalar_m m -> sc_res m (xeval orc fuel names e m)) /\
+    (forall c body names last m, f2e false c = true -> f2b true body = true -> scalar last = true ->
+       scalar_m m -> sc_res m (xwhile orc fuel names c body last m)) /\
+    (forall lp l names last m, f2b lp l = true -> scalar last = true -> scalar_m m ->
+       sc_res m (xstmts orc fuel names l last m)).
+  Proof.
+    induction fuel as [|f [IHe [IHw IHs]]].
+    - repeat split; intros; exact I.
+    - split; [|split].
+      + intros lp e names m HF Hm. destruct e; try discriminate HF.
+        * (* EInfix *) rewrite xe_infix. rewrite f2e_infix in HF.
+          apply andb_prop in HF. destruct HF as [HF Hr]. apply andb_prop in HF. destruct HF as [_ Hl].
+          apply sc_res_bind; [apply (IHe false); assumption|]. intros a m1 Sa Sm1 H1 G1.
+          apply (sc_res_shift m m1); try assumption.
+          apply sc_res_bind; [apply (IHe false); assumption|]. intros b m2 Sb Sm2 H2 G2.
+          apply (sc_res_shift m1 m2); try assumption.
+          destruct (Sem.method_of o) as [mth|] eqn:Em; [|exact I].
+          destruct (binop_scalar orc o mth a b Em Sa Sb) as [sr [Hok Hbin]]. rewrite Hbin.
+          apply sc_lift_sres; assumption.
+        * (* EPrefix *) rewrite xe_prefix. rewrite f2e_prefix in HF. apply andb_prop in HF. destruct HF as [Hop Hr].
+          apply sc_res_bind; [apply (IHe false); assumption|]. intros a m1 Sa Sm1 H1 G1.
+          apply (sc_res_shift m m1); try assumption.
+          assert (sc_res m1 (xlift_h m1 (negate (m_heap m1) a))) as Hneg.
+          { destruct (negate_scalar a Sa) as [sr [Hok Hn]]. rewrite Hn. apply sc_lift_sres; assumption. }
+          destruct o; try discriminate Hop; try exact Hneg.
+          destruct a; try discriminate Sa; cbn [lognot xlift_p sc_res]; auto.
+        * (* EInt *) rewrite xe_int. cbn [sc_res]. cbn [f2e] in HF. split; [apply scalar_lit; exact HF|auto].
+        * (* EBool *) rewrite xe_bool. cbn [sc_res]. auto.
+        * (* EIf *) rewrite xe_if. rewrite f2e_if in HF.
+          apply andb_prop in HF. destruct HF as [HF Ha]. apply andb_prop in HF. destruct HF as [Hc Ht].
+          apply sc_res_bind; [apply (IHe false); assumption|]. intros b m1 Sb Sm1 H1 G1.
+          apply (sc_res_shift m m1); try assumption.
+          destruct b as [|[|]| | | | |]; try exact I.
+          -- apply (IHs lp); auto.
+          -- destruct e0 as [bl|]; [apply (IHs lp); auto|cbn [sc_res]; auto].
+        * (* EIdent *) rewrite xe_ident. destruct (rposition s names); [|exact I].
+          cbn [sc_res]. split; [apply scalar_nth; exact Hm|auto].
+        * (* EAssign *) cbn [f2e] in HF. destruct e1; try discriminate HF. rewrite xe_assign.
+          destruct (rposition s names) as [i|]; [|exact I].
+          apply sc_res_bind; [apply (IHe false); assumption|]. intros a m1 Sa Sm1 H1 G1.
+          cbn [sc_res]. split; [exact Sa|]. split; [apply scalar_set_global; assumption|]. auto.
+        * (* EWhile *) rewrite xe_while. rewrite f2e_while in HF. apply andb_prop in HF. destruct HF as [Hc Hb].
+          apply IHw; auto.
+      + intros c body names last m Hc Hb Sl Hm. rewrite xw_step.
+        apply sc_res_bind; [apply (IHe false); assumption|]. intros b m1 Sb Sm1 H1 G1.
+        destruct b as [|[|]| | | | |]; try exact I.
+        * pose proof (IHs true body names VNull m1 Hb eq_refl Sm1) as Hbody.
+          destruct (xstmts orc f names body VNull m1) as [v m2|m2|m2|e|y|]; cbn [sc_res] in Hbody; try exact I.
+          -- destruct Hbody as [Sv [Sm2 [H2 G2]]].
+             apply (sc_res_shift m m2); try congruence. apply IHw; assumption.
+          -- destruct Hbody as [Sm2 [H2 G2]]. cbn [sc_res]. repeat split; auto; congruence.
+          -- destruct Hbody as [Sm2 [H2 G2]].
+             apply (sc_res_shift m m2); try congruence. apply IHw; auto.
+        * cbn [sc_res]. auto.
+      + intros lp l names last m HF Sl Hm. destruct l as [|s r]; [rewrite xs_nil; cbn [sc_res]; auto|].
+        rewrite f2b_cons in HF. apply andb_prop in HF. destruct HF as [Hs Hr].
+        destruct s as [x e|e|e|b| |]; try discriminate Hs.
+        * rewrite xs_let. cbn [f2s] in Hs. apply andb_prop in Hs. destruct Hs as [He _].
+          apply sc_res_bind; [apply (IHe false); assumption|]. intros a m1 Sa Sm1 H1 G1.
+          apply (sc_res_shift m (set_global_m (length names) a m1)); try assumption.
+          apply (IHs lp); auto. apply scalar_set_global; assumption.
+        * rewrite xs_expr. cbn [f2s] in Hs.
+          apply sc_res_bind; [apply (IHe lp); assumption|]. intros a m1 Sa Sm1 H1 G1.
+          apply (sc_res_shift m m1); try assumption. apply (IHs lp); auto.
+        * rewrite xs_block. rewrite f2s_block in Hs.
+          apply sc_res_bind; [apply (IHs lp); auto|]. intros a m1 Sa Sm1 H1 G1.
+          apply (sc_res_shift m m1); try assumption. apply (IHs lp); auto.
+        * rewrite xs_break. cbn [sc_res]. auto.
+        * rewrite xs_continue. cbn [sc_res]. auto.
+  Qed.
+
+
+  (** ** Whole programs *)
+
+  Theorem compile_run_F2 : forall p bc, in_F2 p = true -> ends_pop p = true -> compile p = Ok bc ->
+    forall fuel,
+    match xstmts orc fuel [] p VNull mst0 with
+    | XOk v m' => exists budget, o_result (run_program orc bc budget) = Ok v
+                                 /\ o_out (run_program orc bc budget) = []
+    | XErr k => exists budget, o_result (run_program orc bc budget) = Err k
+                               /\ o_out (run_program orc bc budget) = []
+    | XFault f => exists budget, o_result (run_program orc bc budget) = Fault f
+                                 /\ o_out (run_program orc bc budget) = []
+    | _ => True
+    end.
+  Proof.
+    intros p bc HF Hpop H fuel. destruct (compile_inv p bc H) as [st1 [Hc ->]]. clear H.
+    destruct (lsim_all p false compiler_new st1 O [] [] HF eq_refl Hc) as [ce [nb L]].
+    pose proof L as [CF _].
+    pose proof (cf_nbnil _ _ _ _ _ _ CF eq_refl) as ->.
+    pose proof (cf_code _ _ _ _ _ _ CF) as Hce. destruct (cf_consts _ _ _ _ _ _ CF) as [kx [Hkx Hf]].
+    cbn [compiler_new c_code c_constants app] in Hce, Hkx.
+    destruct (load_consts_kint kx empty_heap Hf) as [L1 [L2 L3]].
+    destruct (load_consts kx empty_heap) as [consts h0] eqn:El. cbn [fst snd] in L1, L2, L3. subst h0.
+    set (prog := mkProgram (ce ++ [byte_of_opcode OHalt]) consts).
+    set (s0 := vm_start vm_new consts empty_heap).
+    assert (code_len st1 = zlength ce) as Lce by (unfold code_len; rewrite Hce; reflexivity).
+    assert (env_ok prog compiler_new st1 (canon false ce) [] 0) as E.
+    { constructor.
+      - split; [reflexivity|]. intros i b Hi _. unfold byte_at. change (code_len compiler_new) with 0.
+        cbn [Z.add]. destruct (Z.of_nat i <? 0) eqn:Ei; [apply Z.ltb_lt in Ei; lia|].
+        rewrite Nat2Z.id. cbn [prog p_code]. rewrite nth_error_app1; [exact Hi|].
+        apply nth_error_Some. unfold canon in Hi. rewrite Hi. discriminate.
+      - rewrite Hkx. intros i z Hi. apply L2. exact Hi.
+      - intros ip []. }
+    pose proof (stmt_mode p compiler_new st1 [] [] ce [] L prog 0 E ltac:(lia) ltac:(cbn; lia) fuel s0 VNull eq_refl)
+      as Hsim.
+    assert (mst_of s0 = mst0) as Em.
+    { unfold s0, vm_start, mst_of, mst0. cbn [v_heap v_gc v_globals vm_new]. rewrite L3. reflexivity. }
+    rewrite Em in Hsim. change (flat [] []) with (@nil text) in Hsim. rewrite Hpop in Hsim.
+    assert (load_consts (b_constants (mkBytecode (c_constants st1) (c_code st1 ++ [byte_of_opcode OHalt])))
+                        empty_heap = (consts, empty_heap)) as Hload.
+    { cbn [b_constants]. rewrite Hkx. exact El. }
+    pose proof (proj2 (proj2 (xeval_scalar fuel)) false p [] VNull mst0 HF eq_refl (Forall_nil _)) as Hsc.
+    destruct (xstmts orc fuel [] p VNull mst0) as [v m'|m'|m'|e|y|]; cbn [sim_full sc_res] in *; try exact I.
+    - destruct Hsim as [fin' [[n Hn] Hfin]]. rewrite (Hfin eq_refl) in Hn. destruct Hsc as [Sv _].
+      set (sF := setx s0 (v_stack s0) (v_slen s0) (code_len st1) m' v) in *.
+      assert (code_at prog (v_ip sF) [byte_of_opcode OHalt]) as Hh.
+      { exists ce, []. split; [reflexivity|]. symmetry. exact Lce. }
+      destruct (step_halt orc prog sF [] Hh Sv) as [s' [Hst Hout]].
+      exists (n + 1)%nat. eapply run_program_eq; [exact Hload| |exact Hout].
+      cbn [b_code]. rewrite Hce. fold prog. fold s0. rewrite (run_loop_reach orc prog n s0 sF 1 Hn).
+      cbn [run_loop]. rewrite Hst. reflexivity.
+    - destruct Hsim as [n [s1 [Hn [Hst Hout]]]].
+      exists (n + 1)%nat. eapply run_program_eq; [exact Hload| |exact Hout].
+      cbn [b_code]. rewrite Hce. fold prog. fold s0. rewrite (run_loop_reach orc prog n s0 s1 1 Hn).
+      cbn [run_loop]. rewrite Hst. reflexivity.
+    - destruct Hsim as [n [s1 [Hn [Hst Hout]]]].
+      exists (n + 1)%nat. eapply run_program_eq; [exact Hload| |exact Hout].
+      cbn [b_code]. rewrite Hce. fold prog. fold s0. rewrite (run_loop_reach orc prog n s0 s1 1 Hn).
+      cbn [run_loop]. rewrite Hst. reflexivity.
+  Qed.
+
 End Sim.
+
+Print Assumptions sim_all.
+Print Assumptions compile_run_F2.
